@@ -1,6 +1,21 @@
 (* UpgmaProps.v — C15: the UPGMA model (Matrix.v: upgma_loop / upgma).
-   Part I   (any LenOps, structure only): no panic, shape of the result, lengths present.
-   Part II  (Qc): ultrametricity, average linkage, monotone heights / non-negative lengths. *)
+
+   Part I   (any LenOps; hypothesis [Separated O Fin]: the values of live cells form a class closed under the
+             weighted-average update and compare strictly below the marker [linf O] of retired cells)
+     upgma_ok / upgma_no_panic   the run ends with Ok (no Err, no Panic, no OutOfFuel)
+     upgma_shape (UShape)        WFS, 2n-1 live slots, slot 0 = root with two children, slots 1..n = the taxa
+                                 (leaves, named in input order), slots n+1.. unnamed with two children
+     upgma_lengths_present       every non-root slot has a length
+     upgma_rooted_binary         the same through the library API (check_rooted_binary, get_leaves, names ...)
+     upgma_small                 n < 2: Err IndexError
+   Part I'  (no hypothesis at all)
+     upgma_total                 the result is Ok with the shape above, or Panic 34 (the minimal cell was retired)
+   Part II  (Qc, marker B above all input cells)
+     upgma_ultra                 all leaves at the same path distance from the root
+     upgma_avg / upgma_trace     every reachable loop state: cells between live clusters = average linkage
+     upgma_heights(_mono), upgma_nonneg   merge heights never decrease; branch lengths >= 0 for inputs >= 0
+     upgma_linkage(_unique)      the internal nodes are the merges of average linkage run from its definition;
+                                 with unambiguous minima that run is unique (clusters as sets, equal heights) *)
 From PT Require Import Arena Spec Queries Matrix RepLib WFOps Tril.
 From Coq Require Import Permutation Sorted Lia List Arith Bool.
 
@@ -88,11 +103,9 @@ Lemma nac_name (n : node) c e : nname (node_add_child n c e) = nname n.
 Proof. destruct e; reflexivity. Qed.
 
 (* ---- merge_children, precise effect ------------------------------------------------------------------- *)
-Lemma merge_spec (t : arena) pid nP c1 c2 n1 n2 e1 e2 pe nm :
-  WFS t -> get t pid = Ok nP -> get t c1 = Ok n1 -> get t c2 = Ok n2 ->
-  nparent n1 = Some pid -> nparent n2 = Some pid -> c1 <> c2 ->
-  exists t8,
-    merge_children t c1 c2 e1 e2 pe nm = (Ok (t8, length t), t8) /\ WFS t8 /\ length t8 = S (length t) /\
+Definition MergeFacts (t : arena) pid (nP n1 n2 : node) c1 c2 (e1 e2 pe : option L) (nm : option str)
+           (t8 : arena) : Prop :=
+    WFS t8 /\ length t8 = S (length t) /\
     c1 <> pid /\ c2 <> pid /\
     (forall j n, j <> pid -> j <> c1 -> j <> c2 -> nth_error t j = Some n ->
                  exists n', nth_error t8 j = Some n' /\ feq n n') /\
@@ -108,6 +121,13 @@ Lemma merge_spec (t : arena) pid nP c1 c2 n1 n2 e1 e2 pe nm :
                 ndeleted m2 = false) /\
     (exists u, nth_error t8 (length t) = Some u /\ nid u = length t /\ nname u = nm /\
                nparent u = Some pid /\ nchildren u = [c1; c2] /\ npedge u = pe /\ ndeleted u = false).
+
+Lemma merge_spec (t : arena) pid nP c1 c2 n1 n2 e1 e2 pe nm :
+  WFS t -> get t pid = Ok nP -> get t c1 = Ok n1 -> get t c2 = Ok n2 ->
+  nparent n1 = Some pid -> nparent n2 = Some pid -> c1 <> c2 ->
+  exists t8,
+    merge_children t c1 c2 e1 e2 pe nm = (Ok (t8, length t), t8) /\
+    MergeFacts t pid nP n1 n2 c1 c2 e1 e2 pe nm t8.
 Proof.
   intros Hwfs HgP Hg1 Hg2 Hp1 Hp2 Hc12. pose proof Hwfs as [Hwf Hse].
   destruct (WF_parent_of _ _ _ _ Hwf Hg1 Hp1) as (nP' & HgP' & Hc1).
@@ -179,10 +199,9 @@ Proof.
   assert (nid XN = new /\ nparent XN = Some pid /\ npedge XN = pe /\ ndeleted XN = false /\
           nchildren XN = [c1; c2] /\ nname XN = nm) as (W1 & W2 & W3 & W4 & W5 & W6)
     by (unfold XN, Y; destruct e1, e2; simpl; auto 10).
-  splits; auto; try congruence.
-  - unfold new. lia.
+  unfold MergeFacts. subst new. splits; auto; try congruence.
   - intros j n Hj0 Hj1 Hj2 Hn. eapply depth_only_slot; eauto.
-    rewrite S_o; auto. apply nth_error_Some_lt in Hn. unfold new. lia.
+    rewrite S_o; auto. apply nth_error_Some_lt in Hn. lia.
   - destruct (depth_only_slot _ _ _ _ Hdo S_P) as (P' & HP' & Q1 & Q2 & Q3 & Q4 & Q5 & Q6).
     exists P'. splits; auto; try congruence.
     + rewrite Q2. unfold XP. rewrite nac_name. rewrite (nrc_name _ _ _ Hrm2). apply (nrc_name _ _ _ Hrm1).
@@ -457,5 +476,2149 @@ Proof.
   - exfalso. destruct Hex as (x & Hx & _). rewrite P in Hx. destruct Hx.
 Qed.
 
+(* ---- the loop as a state machine ----------------------------------------------------------------------- *)
+Record ustate := mkU { u_cells : list L; u_card : list nat; u_merged : list bool; u_heights : list L;
+                       u_ids : list nat; u_t : arena; u_k : nat }.
+
+Definition two : L := ladd O (l1 O) (l1 O).
+
+(* state after merging clusters a > b at distance d, the arena being t' *)
+Definition st_next (n : nat) (s : ustate) (a b : nat) (d : L) (t' : arena) : ustate :=
+  let nh := ldiv O d two in
+  let ha := nth a (u_heights s) (l0 O) in
+  let merged' := replace_nth b true (u_merged s) in
+  mkU (fold_left (cells_step a b (nth a (u_card s) 0) (nth b (u_card s) 0) merged') (seq 0 n) (u_cells s))
+      (replace_nth a (nth a (u_card s) 0 + nth b (u_card s) 0) (u_card s))
+      merged'
+      (replace_nth a (ladd O ha (lsub O nh ha)) (u_heights s))
+      (replace_nth a (length (u_t s)) (u_ids s)) t' (u_k s - 1).
+
+Definition ustep (n : nat) (s : ustate) : outcome ustate :=
+  match dm_min O (mkDmat n [] (u_cells s)) with
+  | None => Err IndexError
+  | Some (a, b, d_ab) =>
+      let nh := ldiv O d_ab two in
+      let ha := nth a (u_heights s) (l0 O) in
+      let hb := nth b (u_heights s) (l0 O) in
+      let d_au := lsub O nh ha in
+      let d_bu := lsub O nh hb in
+      let merged' := replace_nth b true (u_merged s) in
+      match merge_children (u_t s) (nth a (u_ids s) 0) (nth b (u_ids s) 0) (Some d_au) (Some d_bu) None None with
+      | (Ok (t', u_node), _) =>
+          Ok (mkU (fold_left (cells_step a b (nth a (u_card s) 0) (nth b (u_card s) 0) merged') (seq 0 n) (u_cells s))
+                  (replace_nth a (nth a (u_card s) 0 + nth b (u_card s) 0) (u_card s))
+                  merged'
+                  (replace_nth a (ladd O ha d_au) (u_heights s))
+                  (replace_nth a u_node (u_ids s)) t' (u_k s - 1))
+      | _ => Panic 34
+      end
+  end.
+
+Definition uloop (fuel n : nat) (s : ustate) :=
+  upgma_loop O fuel n (u_cells s) (u_card s) (u_merged s) (u_heights s) (u_ids s) (u_t s) (u_k s).
+Definition uout (s : ustate) := (u_cells s, u_merged s, u_heights s, u_ids s, u_t s).
+
+Lemma uloop_0 n s : uloop 0 n s = if Nat.leb (u_k s) 2 then Ok (uout s) else OutOfFuel.
+Proof. reflexivity. Qed.
+
+Lemma uloop_S f n s :
+  uloop (S f) n s = if Nat.leb (u_k s) 2 then Ok (uout s) else bind (ustep n s) (uloop f n).
+Proof.
+  unfold uloop, ustep. cbn [upgma_loop]. destruct (Nat.leb (u_k s) 2); [reflexivity|].
+  destruct (dm_min O (mkDmat n [] (u_cells s))) as [[[a b] d]|]; [|reflexivity].
+  unfold cells_step, avg2.
+  destruct (merge_children (u_t s) (nth a (u_ids s) 0) (nth b (u_ids s) 0)) as [[[t' u]| | |] ?]; reflexivity.
+Qed.
+
+Lemma uloop_run (Inv : ustate -> Prop) n :
+  (forall s, Inv s -> 2 < u_k s -> exists s', ustep n s = Ok s' /\ Inv s' /\ u_k s' = u_k s - 1) ->
+  forall f s, Inv s -> u_k s <= f + 2 ->
+    exists s', uloop f n s = Ok (uout s') /\ Inv s' /\ u_k s' = Nat.min (u_k s) 2.
+Proof.
+  intros Hstep. induction f as [|f IH]; intros s Hs Hk.
+  - rewrite uloop_0. destruct (Nat.leb (u_k s) 2) eqn:E; [|apply Nat.leb_gt in E; lia].
+    apply Nat.leb_le in E. exists s. splits; auto. lia.
+  - rewrite uloop_S. destruct (Nat.leb (u_k s) 2) eqn:E.
+    + apply Nat.leb_le in E. exists s. splits; auto. lia.
+    + apply Nat.leb_gt in E. destruct (Hstep s Hs E) as (s1 & Hst & Hs1 & Hk1).
+      rewrite Hst. simpl. destruct (IH s1 Hs1 ltac:(lia)) as (s' & Hr & Hs' & Hk').
+      exists s'. splits; auto. lia.
+Qed.
+
+(* ---- counting unmerged clusters ------------------------------------------------------------------------ *)
+Definition unmb (merged : list bool) (i : nat) : bool := negb (nth i merged true).
+
+Lemma count_ge2 (p : nat -> bool) n :
+  2 <= length (filter p (seq 0 n)) ->
+  exists i j, i < n /\ j < n /\ i <> j /\ p i = true /\ p j = true.
+Proof.
+  intros H. pose proof (NoDup_filter p (seq_NoDup n 0)) as Hnd.
+  destruct (filter p (seq 0 n)) as [|i [|j l]] eqn:E; simpl in H; try lia.
+  assert (Hi : In i (filter p (seq 0 n))) by (rewrite E; simpl; auto).
+  assert (Hj : In j (filter p (seq 0 n))) by (rewrite E; simpl; auto).
+  apply filter_In in Hi as [Hi1 Hi2]. apply filter_In in Hj as [Hj1 Hj2].
+  apply in_seq in Hi1, Hj1. exists i, j. splits; auto; try lia.
+  inversion Hnd; subst. simpl in *. intuition.
+Qed.
+
+Lemma count_retire (m : list bool) b (l : list nat) :
+  b < length m -> nth b m true = false -> NoDup l ->
+  length (filter (unmb (replace_nth b true m)) l) + (if in_dec Nat.eq_dec b l then 1 else 0)
+  = length (filter (unmb m) l).
+Proof.
+  intros Hb Hmb. induction l as [|x l IH]; intros Hnd; [reflexivity|].
+  inversion Hnd; subst. specialize (IH H2). simpl filter.
+  destruct (Nat.eq_dec x b) as [->|Hne].
+  - assert (E1 : unmb (replace_nth b true m) b = false)
+      by (unfold unmb; rewrite nth_replace_nth_eq by auto; reflexivity).
+    assert (E2 : unmb m b = true) by (unfold unmb; rewrite Hmb; reflexivity).
+    rewrite E1, E2. simpl.
+    destruct (Nat.eq_dec b b); [|congruence].
+    destruct (in_dec Nat.eq_dec b l); [contradiction|]. lia.
+  - assert (E1 : unmb (replace_nth b true m) x = unmb m x)
+      by (unfold unmb; rewrite nth_replace_nth_neq by auto; reflexivity).
+    rewrite E1. simpl. destruct (Nat.eq_dec x b); [congruence|].
+    destruct (in_dec Nat.eq_dec b l); destruct (unmb m x); simpl; lia.
+Qed.
+
+Lemma count_retire_seq (m : list bool) b n :
+  b < n -> length m = n -> nth b m true = false ->
+  length (filter (unmb (replace_nth b true m)) (seq 0 n)) = length (filter (unmb m) (seq 0 n)) - 1.
+Proof.
+  intros Hb Hl Hmb. pose proof (count_retire m b (seq 0 n) ltac:(lia) Hmb (seq_NoDup n 0)) as H.
+  destruct (in_dec Nat.eq_dec b (seq 0 n)) as [_|Hn]; [lia|].
+  exfalso. apply Hn. apply in_seq. lia.
+Qed.
+
+(* ---- the structural invariant --------------------------------------------------------------------------- *)
+Definition SlotOK (n : nat) (taxa : list str) (j : nat) (nd : node) : Prop :=
+  ndeleted nd = false /\
+  (j = 0 -> nparent nd = None /\ nname nd = None) /\
+  (1 <= j <= n -> nchildren nd = [] /\ nname nd = Some (nth (j - 1) taxa [])) /\
+  (n < j -> nname nd = None /\ exists c1 c2, nchildren nd = [c1; c2]) /\
+  (forall p, nparent nd = Some p -> p <> 0 -> npedge nd <> None).
+
+Lemma SlotOK_feq n taxa j nd nd' : feq nd nd' -> SlotOK n taxa j nd -> SlotOK n taxa j nd'.
+Proof.
+  intros (Q1 & Q2 & Q3 & Q4 & Q5 & Q6) (S1 & S2 & S3 & S4 & S5).
+  unfold SlotOK. rewrite Q2, Q3, Q4, Q5, Q6. auto.
+Qed.
+
+Record SInv (n : nat) (taxa : list str) (s : ustate) : Prop := {
+  si_wfs : WFS (u_t s);
+  si_len : length (u_t s) + u_k s = 2 * n + 1;
+  si_k : 2 <= u_k s <= n;
+  si_lcard : length (u_card s) = n;
+  si_lmerged : length (u_merged s) = n;
+  si_lheights : length (u_heights s) = n;
+  si_lids : length (u_ids s) = n;
+  si_count : length (filter (unmb (u_merged s)) (seq 0 n)) = u_k s;
+  si_slots : forall j nd, nth_error (u_t s) j = Some nd -> SlotOK n taxa j nd;
+  si_root : exists n0, nth_error (u_t s) 0 = Some n0 /\
+              forall c, In c (nchildren n0) <->
+                        exists u, u < n /\ nth u (u_merged s) true = false /\ nth u (u_ids s) 0 = c;
+  si_inj : forall u v, u < n -> v < n -> nth u (u_merged s) true = false -> nth v (u_merged s) true = false ->
+              nth u (u_ids s) 0 = nth v (u_ids s) 0 -> u = v;
+  si_par : forall u, u < n -> nth u (u_merged s) true = false ->
+              exists nd, nth_error (u_t s) (nth u (u_ids s) 0) = Some nd /\ nparent nd = Some 0;
+  si_card : forall u, u < n -> nth u (u_merged s) true = false -> 0 < nth u (u_card s) 0;
+  si_cells : CellsOK n (u_cells s) (u_merged s) }.
+
+(* what one iteration does, given the invariant, when the minimal cell joins two live clusters a > b *)
+Lemma ustep_desc_pick n taxa s a b d :
+  SInv n taxa s ->
+  dm_min O (mkDmat n [] (u_cells s)) = Some (a, b, d) -> b < a -> a < n ->
+  nth a (u_merged s) true = false -> nth b (u_merged s) true = false ->
+  exists n0 n1 n2 t8,
+    nth_error (u_t s) 0 = Some n0 /\
+    nth_error (u_t s) (nth a (u_ids s) 0) = Some n1 /\ nth_error (u_t s) (nth b (u_ids s) 0) = Some n2 /\
+    nparent n1 = Some 0 /\ nparent n2 = Some 0 /\ nth a (u_ids s) 0 <> nth b (u_ids s) 0 /\
+    MergeFacts (u_t s) 0 n0 n1 n2 (nth a (u_ids s) 0) (nth b (u_ids s) 0)
+       (Some (lsub O (ldiv O d two) (nth a (u_heights s) (l0 O))))
+       (Some (lsub O (ldiv O d two) (nth b (u_heights s) (l0 O)))) None None t8 /\
+    ustep n s = Ok (st_next n s a b d t8).
+Proof.
+  intros I Hmin Hba Han Hma Hmb.
+  destruct (si_root _ _ _ I) as (n0 & Hn0 & Hch0).
+  destruct (si_par _ _ _ I a Han Hma) as (n1 & Hn1 & Hp1).
+  destruct (si_par _ _ _ I b ltac:(lia) Hmb) as (n2 & Hn2 & Hp2).
+  assert (Hc12 : nth a (u_ids s) 0 <> nth b (u_ids s) 0).
+  { intros E. apply (si_inj _ _ _ I) in E; auto; lia. }
+  pose proof (si_slots _ _ _ I _ _ Hn0) as (D0 & _).
+  pose proof (si_slots _ _ _ I _ _ Hn1) as (D1 & _).
+  pose proof (si_slots _ _ _ I _ _ Hn2) as (D2 & _).
+  destruct (merge_spec (u_t s) 0 n0 (nth a (u_ids s) 0) (nth b (u_ids s) 0) n1 n2
+              (Some (lsub O (ldiv O d two) (nth a (u_heights s) (l0 O))))
+              (Some (lsub O (ldiv O d two) (nth b (u_heights s) (l0 O)))) None None
+              (si_wfs _ _ _ I)) as (t8 & Hmc & MF); auto; try (apply get_Ok; auto).
+  exists n0, n1, n2, t8. splits; auto.
+  unfold ustep. rewrite Hmin. cbv zeta. rewrite Hmc. reflexivity.
+Qed.
+
+(* under [Separated] the minimal cell always joins two live clusters *)
+Lemma ustep_desc n taxa s :
+  SInv n taxa s -> 2 < u_k s ->
+  exists a b d n0 n1 n2 t8,
+    dm_min O (mkDmat n [] (u_cells s)) = Some (a, b, d) /\ b < a /\ a < n /\
+    nth a (u_merged s) true = false /\ nth b (u_merged s) true = false /\
+    d = cell O (u_cells s) a b /\ Fin d /\
+    nth_error (u_t s) 0 = Some n0 /\
+    nth_error (u_t s) (nth a (u_ids s) 0) = Some n1 /\ nth_error (u_t s) (nth b (u_ids s) 0) = Some n2 /\
+    nparent n1 = Some 0 /\ nparent n2 = Some 0 /\ nth a (u_ids s) 0 <> nth b (u_ids s) 0 /\
+    MergeFacts (u_t s) 0 n0 n1 n2 (nth a (u_ids s) 0) (nth b (u_ids s) 0)
+       (Some (lsub O (ldiv O d two) (nth a (u_heights s) (l0 O))))
+       (Some (lsub O (ldiv O d two) (nth b (u_heights s) (l0 O)))) None None t8 /\
+    ustep n s = Ok (st_next n s a b d t8).
+Proof.
+  intros I Hk.
+  assert (Hex : exists i j, i < n /\ j < n /\ i <> j /\
+                  nth i (u_merged s) true = false /\ nth j (u_merged s) true = false).
+  { destruct (count_ge2 (unmb (u_merged s)) n) as (i & j & Hi & Hj & Hij & Pi & Pj).
+    - rewrite (si_count _ _ _ I). lia.
+    - exists i, j. unfold unmb in *. splits; auto; apply negb_true_iff; auto. }
+  destruct (dm_min_live n _ _ (si_cells _ _ _ I) Hex) as (a & b & d & Hmin & Hba & Han & Hma & Hmb & Hd & Fd).
+  destruct (ustep_desc_pick n taxa s a b d I Hmin Hba Han Hma Hmb)
+    as (n0 & n1 & n2 & t8 & H1 & H2 & H3 & H4 & H5 & H6 & H7 & H8).
+  exists a, b, d, n0, n1, n2, t8. splits; auto.
+Qed.
+
+Lemma SInv_step_pick n taxa s a b d :
+  (forall ca cb x y, 0 < ca -> 0 < cb -> Fin x -> Fin y -> Fin (avg2 ca cb x y)) ->
+  SInv n taxa s -> 2 < u_k s ->
+  dm_min O (mkDmat n [] (u_cells s)) = Some (a, b, d) -> b < a -> a < n ->
+  nth a (u_merged s) true = false -> nth b (u_merged s) true = false ->
+  exists t8, ustep n s = Ok (st_next n s a b d t8) /\ SInv n taxa (st_next n s a b d t8) /\
+             MergeFacts (u_t s) 0
+               (nth 0 (u_t s) tombstone) (nth (nth a (u_ids s) 0) (u_t s) tombstone)
+               (nth (nth b (u_ids s) 0) (u_t s) tombstone) (nth a (u_ids s) 0) (nth b (u_ids s) 0)
+               (Some (lsub O (ldiv O d two) (nth a (u_heights s) (l0 O))))
+               (Some (lsub O (ldiv O d two) (nth b (u_heights s) (l0 O)))) None None t8.
+Proof.
+  intros HAvg I Hk Hmin Hba Han Hma Hmb.
+  destruct (ustep_desc_pick n taxa s a b d I Hmin Hba Han Hma Hmb)
+    as (n0 & n1 & n2 & t8 & Hn0 & Hn1 & Hn2 & Hp1 & Hp2 & Hc12 & MF & Hst).
+  exists t8. split; [exact Hst|].
+  split; [|rewrite (nth_of_nth_error _ _ _ tombstone Hn0), (nth_of_nth_error _ _ _ tombstone Hn1),
+                   (nth_of_nth_error _ _ _ tombstone Hn2); exact MF].
+  destruct MF as (Hwf8 & Hlen8 & Hc10 & Hc20 & Hfr & (P' & HP' & PQ1 & PQ2 & PQ3 & PQ4 & PQ5 & PQ6) &
+                  (m1 & Hm1 & A1 & A2 & A3 & A4 & A5 & A6) & (m2 & Hm2 & B1 & B2 & B3 & B4 & B5 & B6) &
+                  (u & Hu & U1 & U2 & U3 & U4 & U5 & U6)).
+  set (t := u_t s) in *. set (c1 := nth a (u_ids s) 0) in *. set (c2 := nth b (u_ids s) 0) in *.
+  pose proof (si_lmerged _ _ _ I) as Lm. pose proof (si_lids _ _ _ I) as Lids.
+  pose proof (si_lcard _ _ _ I) as Lcard. pose proof (si_lheights _ _ _ I) as Lh.
+  pose proof (si_k _ _ _ I) as Kb. pose proof (si_len _ _ _ I) as Klen. fold t in Klen.
+  assert (Hbn : b < n) by lia. assert (Hab : a <> b) by lia.
+  assert (Mb : nth b (replace_nth b true (u_merged s)) true = true) by (apply nth_replace_nth_eq; lia).
+  assert (Mo : forall x, x <> b -> nth x (replace_nth b true (u_merged s)) true = nth x (u_merged s) true)
+    by (intros; apply nth_replace_nth_neq; auto).
+  assert (Mu : forall x, nth x (replace_nth b true (u_merged s)) true = false ->
+                         x <> b /\ nth x (u_merged s) true = false).
+  { intros x Hx. destruct (Nat.eq_dec x b) as [->|Hne]; [congruence|]. rewrite Mo in Hx; auto. }
+  assert (Ia : nth a (replace_nth a (length t) (u_ids s)) 0 = length t) by (apply nth_replace_nth_eq; lia).
+  assert (Io : forall x, x <> a -> nth x (replace_nth a (length t) (u_ids s)) 0 = nth x (u_ids s) 0)
+    by (intros; apply nth_replace_nth_neq; auto).
+  destruct (si_root _ _ _ I) as (n0' & Hn0' & Hch0). fold t in Hn0'.
+  assert (n0' = n0) by congruence. subst n0'. clear Hn0'.
+  destruct (si_slots _ _ _ I _ _ Hn0) as (R1 & R2 & _). destruct (R2 eq_refl) as [R3 R4].
+  assert (Hidlt : forall v, v < n -> nth v (u_merged s) true = false ->
+                    nth v (u_ids s) 0 < length t /\ nth v (u_ids s) 0 <> 0).
+  { intros v Hv Hmv. destruct (si_par _ _ _ I v Hv Hmv) as (nd & Hnd & Hpd). fold t in Hnd. split.
+    - eapply nth_error_Some_lt; eauto.
+    - intros E. rewrite E in Hnd. congruence. }
+  assert (Hlt0 : 0 < length t) by (eapply nth_error_Some_lt; eauto).
+  constructor; simpl; fold t.
+  - exact Hwf8.
+  - fold t. lia.
+  - lia.
+  - rewrite replace_nth_length. auto.
+  - rewrite replace_nth_length. auto.
+  - rewrite replace_nth_length. auto.
+  - rewrite replace_nth_length. auto.
+  - rewrite count_retire_seq; auto. rewrite (si_count _ _ _ I). reflexivity.
+  - (* slots *)
+    intros j nd Hnd.
+    assert (Hj : j < S (length t)) by (rewrite <- Hlen8; eapply nth_error_Some_lt; eauto).
+    destruct (Nat.eq_dec j (length t)) as [->|Hjn].
+    + rewrite Hu in Hnd. injection Hnd as <-. unfold SlotOK. splits; auto.
+      * intros E. lia.
+      * intros [H1 H2]. lia.
+      * intros _. split; auto. exists c1, c2. auto.
+      * intros p Hp Hp0. rewrite U3 in Hp. congruence.
+    + assert (Hjl : j < length t) by lia.
+      destruct (nth_error t j) as [nj|] eqn:Hnj; [|apply nth_error_None in Hnj; lia].
+      pose proof (si_slots _ _ _ I j nj Hnj) as SO.
+      destruct (Nat.eq_dec j 0) as [->|Hj0].
+      { rewrite HP' in Hnd. injection Hnd as <-. assert (nj = n0) by congruence. subst nj.
+        unfold SlotOK. splits; auto.
+        - intros _. split; congruence.
+        - intros [? ?]; lia.
+        - intros; lia.
+        - intros p Hp. congruence. }
+      destruct (Nat.eq_dec j c1) as [->|Hj1].
+      { rewrite Hm1 in Hnd. injection Hnd as <-. assert (nj = n1) by congruence. subst nj.
+        destruct SO as (S1 & S2 & S3 & S4 & S5). unfold SlotOK. rewrite A2, A4, A5. splits; auto.
+        - intros E. congruence.
+        - intros p Hp Hp0. discriminate. }
+      destruct (Nat.eq_dec j c2) as [->|Hj2].
+      { rewrite Hm2 in Hnd. injection Hnd as <-. assert (nj = n2) by congruence. subst nj.
+        destruct SO as (S1 & S2 & S3 & S4 & S5). unfold SlotOK. rewrite B2, B4, B5. splits; auto.
+        - intros E. congruence.
+        - intros p Hp Hp0. discriminate. }
+      destruct (Hfr j nj Hj0 Hj1 Hj2 Hnj) as (n' & Hn' & Fe). rewrite Hn' in Hnd. injection Hnd as <-.
+      eapply SlotOK_feq; eauto.
+  - (* root children = live cluster nodes *)
+    exists P'. split; auto. intros c. rewrite PQ6, in_app_iff, filter_In. split.
+    + intros [[Hc Hne]|[<-|[]]].
+      * apply Hch0 in Hc as (u0 & Hu0 & Hmu0 & Hid0). apply andb_true_iff in Hne as [N1 N2].
+        apply negb_true_iff, Nat.eqb_neq in N1, N2.
+        assert (u0 <> a) by (intros ->; apply N1; auto).
+        assert (u0 <> b) by (intros ->; apply N2; auto).
+        exists u0. splits; auto. rewrite Mo; auto. rewrite Io; auto.
+      * exists a. splits; auto. rewrite Mo; auto.
+    + intros (u0 & Hu0 & Hmu0 & Hid0). apply Mu in Hmu0 as [Hub Hmu0].
+      destruct (Nat.eq_dec u0 a) as [->|Hua].
+      * right. rewrite Ia in Hid0. simpl; auto.
+      * left. rewrite Io in Hid0 by auto. split; [apply Hch0; exists u0; auto|].
+        apply andb_true_iff; split; apply negb_true_iff, Nat.eqb_neq; intros E.
+        -- apply Hua. apply (si_inj _ _ _ I); auto. fold c1. congruence.
+        -- apply Hub. apply (si_inj _ _ _ I); auto. fold c2. congruence.
+  - (* injectivity *)
+    intros u0 v0 Hu0 Hv0 Mu0 Mv0 E. apply Mu in Mu0 as [? Mu0]. apply Mu in Mv0 as [? Mv0].
+    destruct (Nat.eq_dec u0 a) as [->|Hua], (Nat.eq_dec v0 a) as [->|Hva]; auto.
+    + rewrite Ia, Io in E by auto. destruct (Hidlt v0 Hv0 Mv0). lia.
+    + rewrite Ia, Io in E by auto. destruct (Hidlt u0 Hu0 Mu0). lia.
+    + rewrite !Io in E by auto. apply (si_inj _ _ _ I); auto.
+  - (* cluster nodes hang under the root *)
+    intros u0 Hu0 Mu0. apply Mu in Mu0 as [Hub Mu0].
+    destruct (Nat.eq_dec u0 a) as [->|Hua].
+    + rewrite Ia. exists u. split; auto.
+    + rewrite Io by auto. destruct (si_par _ _ _ I u0 Hu0 Mu0) as (nd & Hnd & Hpd). fold t in Hnd.
+      destruct (Hidlt u0 Hu0 Mu0) as [_ Hne0].
+      assert (N1 : nth u0 (u_ids s) 0 <> c1) by (intros E; apply Hua; apply (si_inj _ _ _ I); auto).
+      assert (N2 : nth u0 (u_ids s) 0 <> c2) by (intros E; apply Hub; apply (si_inj _ _ _ I); auto).
+      destruct (Hfr _ nd Hne0 N1 N2 Hnd) as (n' & Hn' & Fe). exists n'. split; auto.
+      destruct Fe as (_ & _ & -> & _). auto.
+  - (* cardinalities *)
+    intros u0 Hu0 Mu0. apply Mu in Mu0 as [Hub Mu0].
+    destruct (Nat.eq_dec u0 a) as [->|Hua].
+    + rewrite nth_replace_nth_eq by lia. pose proof (si_card _ _ _ I a Han Hma). lia.
+    + rewrite nth_replace_nth_neq by auto. apply (si_card _ _ _ I); auto.
+  - (* cells *)
+    destruct (si_cells _ _ _ I) as [Hlen Hc].
+    pose proof (si_card _ _ _ I a Han Hma) as Ca. pose proof (si_card _ _ _ I b Hbn Hmb) as Cb.
+    destruct (cells_fold_spec n a b (nth a (u_card s) 0) (nth b (u_card s) 0) _ Han Hbn Hab Mb
+                (seq 0 n) (u_cells s) (seq_NoDup n 0)) as (Cl & C1 & C2); auto.
+    { intros x Hx. apply in_seq in Hx. lia. }
+    split; [congruence|]. intros i j Hi Hj Hij.
+    assert (Hini : In i (seq 0 n)) by (apply in_seq; lia).
+    assert (Hinj : In j (seq 0 n)) by (apply in_seq; lia).
+    split.
+    + intros Mi Mj. pose proof Mi as Mi'. pose proof Mj as Mj'.
+      apply Mu in Mi as [Hib Mi]. apply Mu in Mj as [Hjb Mj].
+      destruct (Nat.eq_dec i a) as [->|Hia].
+      * destruct (C1 j Hinj Mj') as [_ X]. rewrite X by auto.
+        apply HAvg; auto; apply Hc; auto.
+      * destruct (Nat.eq_dec j a) as [->|Hja].
+        -- rewrite cell_sym. destruct (C1 i Hini Mi') as [_ X]. rewrite X by auto.
+           apply HAvg; auto; apply Hc; auto.
+        -- rewrite C2; auto. { apply Hc; auto. }
+           intros x Hx Mx. apply Mu in Mx. unfold peq. lia.
+    + intros Hor.
+      destruct (nth i (replace_nth b true (u_merged s)) true) eqn:Ei;
+      destruct (nth j (replace_nth b true (u_merged s)) true) eqn:Ej.
+      * (* both retired *)
+        rewrite C2; auto.
+        { apply Hc; auto. destruct (Nat.eq_dec i b) as [->|Hib].
+          - right. rewrite Mo in Ej by auto. auto.
+          - left. rewrite Mo in Ei by auto. auto. }
+        intros x Hx Mx. assert (x <> i) by (intros ->; congruence). assert (x <> j) by (intros ->; congruence).
+        unfold peq. lia.
+      * destruct (Nat.eq_dec i b) as [->|Hib].
+        { destruct (C1 j Hinj Ej) as [X _]. auto. }
+        rewrite Mo in Ei by auto.
+        assert (i <> a) by (intros ->; congruence).
+        apply Mu in Ej as [Hjb Ej].
+        rewrite C2; auto. { apply Hc; auto. }
+        intros x Hx Mx. apply Mu in Mx as [? Mx]. assert (x <> i) by (intros ->; congruence).
+        unfold peq. lia.
+      * destruct (Nat.eq_dec j b) as [->|Hjb].
+        { rewrite cell_sym. destruct (C1 i Hini Ei) as [X _]. auto. }
+        rewrite Mo in Ej by auto.
+        assert (j <> a) by (intros ->; congruence).
+        apply Mu in Ei as [Hib Ei].
+        rewrite C2; auto. { apply Hc; auto. }
+        intros x Hx Mx. apply Mu in Mx as [? Mx]. assert (x <> j) by (intros ->; congruence).
+        unfold peq. lia.
+      * destruct Hor; congruence.
+Qed.
+
+Lemma SInv_step n taxa s :
+  SInv n taxa s -> 2 < u_k s -> exists s', ustep n s = Ok s' /\ SInv n taxa s' /\ u_k s' = u_k s - 1.
+Proof.
+  intros I Hk.
+  destruct (ustep_desc n taxa s I Hk)
+    as (a & b & d & n0 & n1 & n2 & t8 & Hmin & Hba & Han & Hma & Hmb & Hd & Fd & Hn0 & Hn1 & Hn2 & Hp1 & Hp2 &
+        Hc12 & MF & Hst).
+  destruct (SInv_step_pick n taxa s a b d (sep_avg _ HSep) I Hk Hmin Hba Han Hma Hmb) as (t8' & Hst' & I' & _).
+  exists (st_next n s a b d t8'). splits; auto.
+Qed.
+
+(* one iteration, everything the metric invariants need to know about it *)
+Lemma ustep_full n taxa s s' :
+  SInv n taxa s -> 2 < u_k s -> ustep n s = Ok s' ->
+  exists a b d n0 n1 n2 t8,
+    dm_min O (mkDmat n [] (u_cells s)) = Some (a, b, d) /\ b < a /\ a < n /\
+    nth a (u_merged s) true = false /\ nth b (u_merged s) true = false /\
+    d = cell O (u_cells s) a b /\
+    nth_error (u_t s) 0 = Some n0 /\
+    nth_error (u_t s) (nth a (u_ids s) 0) = Some n1 /\ nth_error (u_t s) (nth b (u_ids s) 0) = Some n2 /\
+    nparent n1 = Some 0 /\ nparent n2 = Some 0 /\ nparent n0 = None /\
+    MergeFacts (u_t s) 0 n0 n1 n2 (nth a (u_ids s) 0) (nth b (u_ids s) 0)
+       (Some (lsub O (ldiv O d two) (nth a (u_heights s) (l0 O))))
+       (Some (lsub O (ldiv O d two) (nth b (u_heights s) (l0 O)))) None None t8 /\
+    s' = st_next n s a b d t8 /\
+    (forall x, nth x (u_merged s') true = false <-> x <> b /\ nth x (u_merged s) true = false) /\
+    (forall x, x < n -> x <> a -> nth x (u_merged s') true = false ->
+       cell O (u_cells s') a x =
+       avg2 (nth a (u_card s) 0) (nth b (u_card s) 0) (cell O (u_cells s) x a) (cell O (u_cells s) x b)) /\
+    (forall i j, i < n -> j < n -> i <> j -> i <> a -> j <> a ->
+       nth i (u_merged s') true = false -> nth j (u_merged s') true = false ->
+       cell O (u_cells s') i j = cell O (u_cells s) i j).
+Proof.
+  intros I Hk Hst'.
+  destruct (ustep_desc n taxa s I Hk)
+    as (a & b & d & n0 & n1 & n2 & t8 & Hmin & Hba & Han & Hma & Hmb & Hd & Fd & Hn0 & Hn1 & Hn2 & Hp1 & Hp2 &
+        Hc12 & MF & Hst).
+  rewrite Hst in Hst'. injection Hst' as <-.
+  destruct (si_slots _ _ _ I _ _ Hn0) as (_ & R2 & _). destruct (R2 eq_refl) as [R3 _].
+  pose proof (si_lmerged _ _ _ I) as Lm.
+  assert (Hbn : b < n) by lia. assert (Hab : a <> b) by lia.
+  assert (Mb : nth b (replace_nth b true (u_merged s)) true = true) by (apply nth_replace_nth_eq; lia).
+  assert (Mo : forall x, x <> b -> nth x (replace_nth b true (u_merged s)) true = nth x (u_merged s) true)
+    by (intros; apply nth_replace_nth_neq; auto).
+  assert (Mu : forall x, nth x (replace_nth b true (u_merged s)) true = false <->
+                         x <> b /\ nth x (u_merged s) true = false).
+  { intros x. split.
+    - intros Hx. destruct (Nat.eq_dec x b) as [->|Hne]; [congruence|]. rewrite Mo in Hx; auto.
+    - intros [Hx1 Hx2]. rewrite Mo; auto. }
+  destruct (si_cells _ _ _ I) as [Hlen Hc].
+  destruct (cells_fold_spec n a b (nth a (u_card s) 0) (nth b (u_card s) 0) _ Han Hbn Hab Mb
+              (seq 0 n) (u_cells s) (seq_NoDup n 0)) as (Cl & C1 & C2); auto.
+  { intros x Hx. apply in_seq in Hx. lia. }
+  exists a, b, d, n0, n1, n2, t8. splits; auto.
+  - intros x Hx Hxa Mx. simpl in Mx. simpl. apply C1; auto. apply in_seq. lia.
+  - intros i j Hi Hj Hij Hia Hja Mi Mj. simpl in Mi, Mj. simpl. apply C2; auto.
+    apply Mu in Mi. apply Mu in Mj. intros x Hx Mx. apply Mu in Mx. unfold peq. lia.
+Qed.
+
+(* ---- the star tree built before the loop ---------------------------------------------------------------- *)
+Definition star_step (st : arena * list nat) (nm : str) : outcome (arena * list nat) :=
+  match add_child (fst st) (new_node (Some nm) None) 0 None with
+  | Ok (t', id) => Ok (t', snd st ++ [id])
+  | _ => Panic 35
+  end.
+
+Definition StarInv (pre : list str) (t : arena) (ids : list nat) : Prop :=
+  WFS t /\ length t = S (length pre) /\ ids = seq 1 (length pre) /\
+  (exists n0, nth_error t 0 = Some n0 /\ ndeleted n0 = false /\ nparent n0 = None /\ nname n0 = None /\
+              nchildren n0 = seq 1 (length pre) /\ npedge n0 = None) /\
+  (forall j, 1 <= j <= length pre ->
+     exists nd, nth_error t j = Some nd /\ ndeleted nd = false /\ nparent nd = Some 0 /\ nchildren nd = [] /\
+                nname nd = Some (nth (j - 1) pre []) /\ npedge nd = None).
+
+Lemma star_fold : forall l pre t ids,
+  StarInv pre t ids ->
+  exists t' ids', foldM star_step l (t, ids) = Ok (t', ids') /\ StarInv (pre ++ l) t' ids'.
+Proof.
+  induction l as [|nm l IH]; intros pre t ids HS.
+  - exists t, ids. simpl. rewrite app_nil_r. auto.
+  - destruct HS as (Hwf & Hlen & Hids & (n0 & Hn0 & Hd0 & Hp0 & Hnm0 & Hch0 & Hpe0) & Hsl).
+    assert (Hg0 : get t 0 = Ok n0) by (apply get_Ok; auto).
+    simpl. unfold star_step at 1. simpl fst. simpl snd. rewrite (add_child_Ok _ _ _ _ _ _ Hg0). simpl.
+    set (X := node_add_child n0 (length t) None).
+    set (Y := leaf_node (length t) (Some nm) None 0 None (ndepth n0 + 1)).
+    assert (Hlt0 : 0 < length t) by lia.
+    destruct (slots_add_leaf t 0 X Y Hlt0) as (HsP & Hsnew & Hsfr & Hslen).
+    set (t' := replace_nth 0 X (t ++ [Y])) in *.
+    assert (HS' : StarInv (pre ++ [nm]) t' (ids ++ [length t])).
+    { unfold StarInv. rewrite app_length. simpl. replace (length pre + 1) with (S (length pre)) by lia.
+      splits.
+      - apply add_leaf_wf; auto.
+      - lia.
+      - rewrite seq_S, Hids, Hlen. reflexivity.
+      - exists X. destruct (nac_fields n0 (length t) None) as (G1 & G2 & G3 & G4 & G5 & G6).
+        fold X in G1, G2, G3, G4, G5, G6. splits; auto; try congruence.
+        + rewrite G6, Hch0, seq_S, Hlen. reflexivity.
+      - intros j Hj. destruct (Nat.eq_dec j (S (length pre))) as [->|Hne].
+        + exists Y. rewrite <- Hlen. splits; auto. unfold Y. simpl. rewrite Hlen. simpl.
+          rewrite Nat.sub_0_r. rewrite app_nth2 by lia. rewrite Nat.sub_diag. reflexivity.
+        + destruct (Hsl j ltac:(lia)) as (nd & Hnd & Q1 & Q2 & Q3 & Q4 & Q5).
+          exists nd. splits; auto.
+          * rewrite Hsfr; auto; lia.
+          * rewrite app_nth1 by lia. auto. }
+    destruct (IH _ _ _ HS') as (t'' & ids'' & Hf & HS'').
+    exists t'', ids''. rewrite <- app_assoc in HS''. simpl in HS''. split; auto.
+Qed.
+
+Lemma star_init : StarInv [] [set_nid (new_node None None) 0] [].
+Proof.
+  unfold StarInv. splits; auto.
+  - apply (add_root_wf None None).
+  - exists (set_nid (new_node None None) 0). simpl. splits; auto.
+  - simpl. intros; lia.
+Qed.
+
+(* ---- initial state ----------------------------------------------------------------------------------------- *)
+Definition st_init (n : nat) (cells : list L) (t1 : arena) : ustate :=
+  mkU cells (repeat 1 n) (repeat false n) (repeat (l0 O) n) (seq 1 n) t1 n.
+
+Lemma SInv_init taxa cells t1 :
+  let n := length taxa in
+  2 <= n -> length cells = n * (n - 1) / 2 -> Forall Fin cells ->
+  StarInv taxa t1 (seq 1 n) -> SInv n taxa (st_init n cells t1).
+Proof.
+  intros n Hn Hlen HFin (Hwf & Hlt & _ & (n0 & Hn0 & Hd0 & Hp0 & Hnm0 & Hch0 & _) & Hsl). fold n in Hlt, Hch0, Hsl.
+  assert (Hun : forall i, i < n -> nth i (repeat false n) true = false) by (intros; apply nth_repeat_lt; auto).
+  constructor; simpl; auto.
+  - lia.
+  - apply repeat_length.
+  - apply repeat_length.
+  - apply repeat_length.
+  - apply seq_length.
+  - rewrite filter_id; [apply seq_length|]. intros x Hx. apply in_seq in Hx. unfold unmb. rewrite Hun by lia. auto.
+  - intros j nd Hnd. assert (j < S n) by (rewrite <- Hlt; eapply nth_error_Some_lt; eauto).
+    destruct (Nat.eq_dec j 0) as [->|Hj0].
+    + assert (nd = n0) by congruence. subst nd. unfold SlotOK. splits; auto; try lia. intros; congruence.
+    + destruct (Hsl j ltac:(lia)) as (nd' & Hnd' & Q1 & Q2 & Q3 & Q4 & Q5).
+      assert (nd' = nd) by congruence. subst nd'. unfold SlotOK. splits; auto; try lia. intros; congruence.
+  - exists n0. split; auto. intros c. rewrite Hch0, in_seq. split.
+    + intros Hc. exists (c - 1). splits; try lia. { apply Hun. lia. } rewrite seq_nth by lia. lia.
+    + intros (u & Hu & _ & Hc). rewrite seq_nth in Hc by lia. lia.
+  - intros u v Hu Hv _ _. rewrite !seq_nth by lia. lia.
+  - intros u Hu _. rewrite seq_nth by lia. destruct (Hsl (1 + u) ltac:(lia)) as (nd & Hnd & Q1 & Q2 & _).
+    exists nd. auto.
+  - intros u Hu _. rewrite nth_repeat_lt by auto. lia.
+  - split; auto. intros i j Hi Hj Hij. split.
+    + intros _ _. rewrite Forall_forall in HFin. apply HFin. unfold cell. apply nth_In.
+      rewrite Hlen. apply tril_lt_any; auto.
+    + rewrite !Hun by auto. intros [?|?]; discriminate.
+Qed.
+
+(* ---- the last step: lengths of the two root edges ------------------------------------------------------------- *)
+Definition FinalRel (s : ustate) (ai bi : nat) (t5 : arena) : Prop :=
+  let t := u_t s in
+  let a := nth ai (u_ids s) 0 in
+  let b := nth bi (u_ids s) 0 in
+  let th := ldiv O (cell O (u_cells s) ai bi) two in
+  WFS t5 /\ length t5 = length t /\ a <> 0 /\ b <> 0 /\ a <> b /\
+  (forall j, j <> 0 -> j <> a -> j <> b -> nth_error t5 j = nth_error t j) /\
+  (exists n0 n0', nth_error t 0 = Some n0 /\ nth_error t5 0 = Some n0' /\ feq n0 n0' /\
+                  (nchildren n0 = [a; b] \/ nchildren n0 = [b; a])) /\
+  (exists na, nth_error t a = Some na /\ nparent na = Some 0 /\
+              nth_error t5 a = Some (set_npedge na (Some (lsub O th (nth ai (u_heights s) (l0 O)))))) /\
+  (exists nb, nth_error t b = Some nb /\ nparent nb = Some 0 /\
+              nth_error t5 b = Some (set_npedge nb (Some (lsub O th (nth bi (u_heights s) (l0 O)))))).
+
+Lemma final_step n taxa s :
+  SInv n taxa s -> u_k s = 2 ->
+  exists ai bi t5,
+    filter (unmb (u_merged s)) (seq 0 n) = [ai; bi] /\ ai < n /\ bi < n /\ ai <> bi /\
+    nth ai (u_merged s) true = false /\ nth bi (u_merged s) true = false /\
+    (forall u, u < n -> nth u (u_merged s) true = false -> u = ai \/ u = bi) /\
+    (let a := nth ai (u_ids s) 0 in
+     let b := nth bi (u_ids s) 0 in
+     let th := ldiv O (cell O (u_cells s) ai bi) two in
+     let d_ar := lsub O th (nth ai (u_heights s) (l0 O)) in
+     let d_br := lsub O th (nth bi (u_heights s) (l0 O)) in
+     (t3 <- upd (u_t s) 0 (fun x => node_set_child_edge (node_set_child_edge x a (Some d_ar)) b (Some d_br)) ;;
+      t4 <- upd t3 a (fun x => set_npedge x (Some d_ar)) ;;
+      upd t4 b (fun x => set_npedge x (Some d_br))) = Ok t5) /\
+    FinalRel s ai bi t5.
+Proof.
+  intros I Hk2.
+  pose proof (si_count _ _ _ I) as Hcnt. rewrite Hk2 in Hcnt.
+  pose proof (NoDup_filter (unmb (u_merged s)) (seq_NoDup n 0)) as Hnd.
+  destruct (filter (unmb (u_merged s)) (seq 0 n)) as [|ai [|bi [|? ?]]] eqn:Ef; simpl in Hcnt; try lia.
+  assert (Hin : forall u, In u [ai; bi] <-> u < n /\ nth u (u_merged s) true = false).
+  { intros u. rewrite <- Ef, filter_In, in_seq. unfold unmb. rewrite negb_true_iff. intuition lia. }
+  destruct (proj1 (Hin ai) ltac:(simpl; auto)) as [Hai Mai].
+  destruct (proj1 (Hin bi) ltac:(simpl; auto)) as [Hbi Mbi].
+  assert (Hab : ai <> bi). { inversion Hnd; subst. simpl in *. intuition. }
+  assert (Honly : forall u, u < n -> nth u (u_merged s) true = false -> u = ai \/ u = bi).
+  { intros u Hu Mu. destruct (proj2 (Hin u) (conj Hu Mu)) as [?|[?|[]]]; auto. }
+  set (t := u_t s) in *. set (a := nth ai (u_ids s) 0). set (b := nth bi (u_ids s) 0).
+  destruct (si_root _ _ _ I) as (n0 & Hn0 & Hch0). fold t in Hn0.
+  destruct (si_par _ _ _ I ai Hai Mai) as (na & Hna & Hpa). fold t a in Hna.
+  destruct (si_par _ _ _ I bi Hbi Mbi) as (nb & Hnb & Hpb). fold t b in Hnb.
+  destruct (si_slots _ _ _ I _ _ Hn0) as (D0 & R2 & _). destruct (R2 eq_refl) as [R3 R4].
+  destruct (si_slots _ _ _ I _ _ Hna) as (Da & _). destruct (si_slots _ _ _ I _ _ Hnb) as (Db & _).
+  assert (Ha0 : a <> 0) by (intros E; rewrite E in Hna; congruence).
+  assert (Hb0 : b <> 0) by (intros E; rewrite E in Hnb; congruence).
+  assert (Hanb : a <> b) by (intros E; apply Hab; apply (si_inj _ _ _ I); auto).
+  pose proof (si_wfs _ _ _ I) as Hwfs. fold t in Hwfs. pose proof Hwfs as [Hwf Hse].
+  destruct (WF_node_facts t 0 n0 Hwf Hn0 D0) as (Hndch & _ & He2 & _).
+  assert (Hchab : forall c, In c (nchildren n0) <-> c = a \/ c = b).
+  { intros c. rewrite Hch0. split.
+    - intros (u & Hu & Mu & <-). destruct (Honly u Hu Mu) as [->| ->]; auto.
+    - intros [->| ->]; [exists ai|exists bi]; auto. }
+  pose proof (NoDup_two_cases _ a b Hndch Hanb Hchab) as Hch2.
+  set (th := ldiv O (cell O (u_cells s) ai bi) two).
+  set (d_ar := lsub O th (nth ai (u_heights s) (l0 O))).
+  set (d_br := lsub O th (nth bi (u_heights s) (l0 O))).
+  set (n0' := node_set_child_edge (node_set_child_edge n0 a (Some d_ar)) b (Some d_br)).
+  set (t3 := replace_nth 0 n0' t).
+  set (t4 := replace_nth a (set_npedge na (Some d_ar)) t3).
+  set (t5 := replace_nth b (set_npedge nb (Some d_br)) t4).
+  assert (Hlt0 : 0 < length t) by (eapply nth_error_Some_lt; eauto).
+  assert (Hlta : a < length t) by (eapply nth_error_Some_lt; eauto).
+  assert (Hltb : b < length t) by (eapply nth_error_Some_lt; eauto).
+  assert (S0 : nth_error t5 0 = Some n0') by (unfold t5, t4, t3; slot; auto).
+  assert (Sa : nth_error t5 a = Some (set_npedge na (Some d_ar))) by (unfold t5, t4, t3; slot; auto).
+  assert (Sb : nth_error t5 b = Some (set_npedge nb (Some d_br))) by (unfold t5, t4, t3; slot; auto).
+  assert (So : forall j, j <> 0 -> j <> a -> j <> b -> nth_error t5 j = nth_error t j)
+    by (intros; unfold t5, t4, t3; slot; auto).
+  exists ai, bi, t5. splits; auto.
+  - cbv zeta. fold t a b th d_ar d_br.
+    rewrite (upd_Ok t 0 _ n0) by (apply get_Ok; auto). rewrite bind_ret. fold n0' t3.
+    rewrite (upd_Ok t3 a _ na) by (apply get_Ok; split; auto; unfold t3; slot; auto). rewrite bind_ret. fold t4.
+    rewrite (upd_Ok t4 b _ nb) by (apply get_Ok; split; auto; unfold t4, t3; slot; auto). reflexivity.
+  - unfold FinalRel. cbv zeta. fold t a b th d_ar d_br. splits; auto.
+    + apply (relabel_root_wf t t5 n0 n0'); auto.
+      * unfold n0'. simpl. apply ksorted_insert, ksorted_insert. eauto.
+      * intros c Hc. apply Hchab in Hc as [->| ->].
+        -- exists na, (Some d_ar). splits; auto. unfold n0'. simpl.
+           rewrite edge_get_insert_neq by auto. apply edge_get_insert_eq.
+        -- exists nb, (Some d_br). splits; auto. unfold n0'. simpl. apply edge_get_insert_eq.
+      * intros c Hc. destruct (Nat.eq_dec c a) as [->|Hca]; [apply Hchab; auto|].
+        destruct (Nat.eq_dec c b) as [->|Hcb]; [apply Hchab; auto|].
+        apply He2. unfold n0' in Hc. simpl in Hc. rewrite !edge_get_insert_neq in Hc by auto. auto.
+      * intros j Hj0 Hjc. apply So; auto; intros ->; apply Hjc; apply Hchab; auto.
+    + unfold t5, t4, t3. rewrite !replace_nth_length. auto.
+    + exists n0, n0'. splits; auto. unfold feq, n0'. simpl. auto 10.
+    + exists na. auto.
+    + exists nb. auto.
+Qed.
+
+(* ---- the whole run ------------------------------------------------------------------------------------------ *)
+Lemma upgma_run (m : dmat) (J : ustate -> Prop) :
+  let n := msize m in
+  length (mtaxa m) = n -> 2 <= n -> length (mcells m) = n * (n - 1) / 2 -> Forall Fin (mcells m) ->
+  (forall t1, StarInv (mtaxa m) t1 (seq 1 n) -> J (st_init n (mcells m) t1)) ->
+  (forall s s', SInv n (mtaxa m) s -> J s -> 2 < u_k s -> ustep n s = Ok s' -> J s') ->
+  exists s ai bi t5,
+    SInv n (mtaxa m) s /\ J s /\ u_k s = 2 /\
+    filter (unmb (u_merged s)) (seq 0 n) = [ai; bi] /\ ai < n /\ bi < n /\ ai <> bi /\
+    nth ai (u_merged s) true = false /\ nth bi (u_merged s) true = false /\
+    (forall u, u < n -> nth u (u_merged s) true = false -> u = ai \/ u = bi) /\
+    FinalRel s ai bi t5 /\ upgma O m = Ok t5.
+Proof.
+  intros n Htax Hn Hlen HFin HJ0 HJstep.
+  destruct (star_fold (mtaxa m) [] _ [] star_init) as (t1 & ids1 & Hf & HS). simpl app in HS.
+  assert (Hids1 : ids1 = seq 1 n) by (destruct HS as (_ & _ & -> & _); rewrite Htax; reflexivity). subst ids1.
+  assert (I0 : SInv n (mtaxa m) (st_init n (mcells m) t1)).
+  { pose proof (SInv_init (mtaxa m) (mcells m) t1) as I0. cbv zeta in I0. rewrite Htax in I0. apply I0; auto. }
+  assert (J0 : J (st_init n (mcells m) t1)) by (apply HJ0; auto).
+  destruct (uloop_run (fun s => SInv n (mtaxa m) s /\ J s) n) with (f := S n) (s := st_init n (mcells m) t1)
+    as (s & Hrun & [Is Js] & Hks); auto.
+  { intros s0 [I1 J1] Hk. destruct (SInv_step n (mtaxa m) s0 I1 Hk) as (s1 & Hst & I2 & Hk1).
+    exists s1. splits; auto. apply (HJstep s0 s1); auto. }
+  { simpl. lia. }
+  simpl u_k in Hks. rewrite Nat.min_r in Hks by lia.
+  destruct (final_step n (mtaxa m) s Is Hks)
+    as (ai & bi & t5 & Hfil & Hai & Hbi & Hab & Mai & Mbi & Honly & Hupd & HFR).
+  exists s, ai, bi, t5. splits; auto.
+  unfold upgma. fold n. cbn [add app length].
+  unfold star_step in Hf.
+  rewrite Hf. cbn [bind].
+  change (upgma_loop O (S n) n (mcells m) (repeat 1 n) (repeat false n) (repeat (l0 O) n) (seq 1 n) t1 n)
+    with (uloop (S n) n (st_init n (mcells m) t1)).
+  rewrite Hrun. unfold uout. cbn [bind].
+  change (filter (fun i => negb (nth i (u_merged s) true)) (seq 0 n)) with (filter (unmb (u_merged s)) (seq 0 n)).
+  rewrite Hfil.
+  replace (Nat.eqb ai bi) with false by (symmetry; apply Nat.eqb_neq; auto).
+  replace (Nat.leb n ai) with false by (symmetry; apply Nat.leb_gt; auto).
+  replace (Nat.leb n bi) with false by (symmetry; apply Nat.leb_gt; auto).
+  cbn [orb]. cbv zeta in Hupd. cbv zeta. unfold two in Hupd. rewrite Hupd. reflexivity.
+Qed.
+
+(* ---- Part I, headline statements ------------------------------------------------------------------------------ *)
+(* shape of the result: 2n-1 live slots, slot 0 the root with two children, slots 1..n the taxa (leaves, named
+   in input order), slots n+1.. unnamed with two children, every non-root slot has a parent and a length *)
+Definition UShape (n : nat) (taxa : list str) (t : arena) : Prop :=
+  WFS t /\ length t = 2 * n - 1 /\
+  (forall j nd, nth_error t j = Some nd -> SlotOK n taxa j nd /\ nid nd = j) /\
+  (exists n0 c1 c2, nth_error t 0 = Some n0 /\ nchildren n0 = [c1; c2] /\ nparent n0 = None /\ c1 <> c2) /\
+  (forall j nd, nth_error t j = Some nd -> j <> 0 -> nparent nd <> None /\ npedge nd <> None).
+
+Lemma SlotOK_set_npedge n taxa j nd e : SlotOK n taxa j nd -> SlotOK n taxa j (set_npedge nd (Some e)).
+Proof. intros (S1 & S2 & S3 & S4 & S5). unfold SlotOK. simpl. splits; auto. intros; discriminate. Qed.
+
+Lemma final_shape n taxa s ai bi t5 :
+  SInv n taxa s -> u_k s = 2 ->
+  (forall u, u < n -> nth u (u_merged s) true = false -> u = ai \/ u = bi) ->
+  FinalRel s ai bi t5 -> UShape n taxa t5.
+Proof.
+  intros I Hk Honly FR. unfold FinalRel in FR. cbv zeta in FR.
+  set (t := u_t s) in *. set (a := nth ai (u_ids s) 0) in *. set (b := nth bi (u_ids s) 0) in *.
+  destruct FR as (Hwf5 & Hlen5 & Ha0 & Hb0 & Hab & Hfr & (n0 & n0' & Hn0 & Hn0' & Fe0 & Hch) &
+                  (na & Hna & Hpa & Hna5) & (nb & Hnb & Hpb & Hnb5)).
+  pose proof (si_len _ _ _ I) as Klen. fold t in Klen.
+  pose proof (si_wfs _ _ _ I) as Hwfs. fold t in Hwfs.
+  assert (Hslot : forall j nd, nth_error t5 j = Some nd -> SlotOK n taxa j nd).
+  { intros j nd Hnd.
+    destruct (Nat.eq_dec j 0) as [->|Hj0].
+    { assert (nd = n0') by congruence. subst nd. eapply SlotOK_feq; eauto. apply (si_slots _ _ _ I); auto. }
+    destruct (Nat.eq_dec j a) as [->|Hja].
+    { rewrite Hna5 in Hnd. injection Hnd as <-. apply SlotOK_set_npedge. apply (si_slots _ _ _ I); auto. }
+    destruct (Nat.eq_dec j b) as [->|Hjb].
+    { rewrite Hnb5 in Hnd. injection Hnd as <-. apply SlotOK_set_npedge. apply (si_slots _ _ _ I); auto. }
+    rewrite Hfr in Hnd by auto. apply (si_slots _ _ _ I); auto. }
+  destruct (si_slots _ _ _ I _ _ Hn0) as (D0 & R2 & _). destruct (R2 eq_refl) as [R3 R4].
+  destruct Fe0 as (Q1 & Q2 & Q3 & Q4 & Q5 & Q6).
+  unfold UShape. splits; auto.
+  - lia.
+  - intros j nd Hnd. split; auto. destruct Hwf5 as [Hwf5 _].
+    destruct (Hslot j nd Hnd) as (D & _).
+    destruct (WF_node_facts t5 j nd Hwf5 Hnd D) as (_ & _ & _ & Hid). auto.
+  - destruct Hch as [Hch|Hch]; [exists n0', a, b|exists n0', b, a]; splits; auto; congruence.
+  - intros j nd Hnd Hj0. destruct (Hslot j nd Hnd) as (D & S2 & S3 & S4 & S5).
+    assert (Hpar : nparent nd <> None).
+    { intros Hp. apply Hj0. destruct Hwf5 as [Hwf5 _].
+      apply (WF_root_of t5 j nd 0 n0' Hwf5); auto; try (apply get_Ok; split; auto; congruence). congruence. }
+    split; auto.
+    destruct (Nat.eq_dec j a) as [->|Hja].
+    { rewrite Hna5 in Hnd. injection Hnd as <-. simpl. discriminate. }
+    destruct (Nat.eq_dec j b) as [->|Hjb].
+    { rewrite Hnb5 in Hnd. injection Hnd as <-. simpl. discriminate. }
+    destruct (nparent nd) as [p|] eqn:Hp; [|congruence].
+    destruct (Nat.eq_dec p 0) as [->|Hp0]; [|eapply S5; eauto].
+    exfalso. rewrite Hfr in Hnd by auto. destruct Hwfs as [Hwf _].
+    destruct (WF_parent_of t j nd 0 Hwf) as (nP & HgP & Hin); auto; try (apply get_Ok; auto).
+    apply get_Ok in HgP as [HnP _]. assert (nP = n0) by congruence. subst nP.
+    destruct Hch as [Hch|Hch]; rewrite Hch in Hin; simpl in Hin; intuition.
+Qed.
+
+Theorem upgma_ok_shape (m : dmat) :
+  length (mtaxa m) = msize m -> 2 <= msize m -> length (mcells m) = msize m * (msize m - 1) / 2 ->
+  Forall Fin (mcells m) ->
+  exists t, upgma O m = Ok t /\ UShape (msize m) (mtaxa m) t.
+Proof.
+  intros Htax Hn Hlen HFin.
+  destruct (upgma_run m (fun _ => True) Htax Hn Hlen HFin) as
+    (s & ai & bi & t5 & Is & _ & Hk & _ & _ & _ & _ & _ & _ & Honly & FR & Hrun); auto.
+  exists t5. split; auto. eapply final_shape; eauto.
+Qed.
+
+
 End Sep.
 End Loop.
+
+(* ================================================================================================== *)
+(* Part I': no hypothesis on the comparison at all: the result is the tree described above, or the     *)
+(* unwrap of merge_children fires (Panic 34) because the minimal cell was a retired one                *)
+(* ================================================================================================== *)
+Section General.
+Context {L : Type}.
+Variable O : LenOps L.
+Notation arena := (@arena L).
+Notation node := (@node L).
+Notation ustate := (@ustate L).
+Notation dmat := (@dmat L).
+Let FinT : L -> Prop := fun _ => True.
+
+Lemma pick_in {K} (lt : L -> L -> bool) (l : list (K * L)) e :
+  fold_left (pick lt) l None = Some e -> In e l.
+Proof.
+  revert e. induction l as [|x l IH] using rev_ind; intros e; [discriminate|].
+  rewrite fold_left_app. simpl. destruct (fold_left (pick lt) l None) as [[ek ev]|]; simpl.
+  - destruct (lt (snd x) ev); intros [= <-]; apply in_or_app; simpl; auto.
+  - intros [= <-]. apply in_or_app; simpl; auto.
+Qed.
+
+(* retired clusters: their nodes hang under pairwise distinct internal nodes *)
+Definition RInv (n : nat) (s : ustate) : Prop :=
+  (forall u, u < n -> nth u (u_merged s) true = true ->
+     exists nd p, nth_error (u_t s) (nth u (u_ids s) 0) = Some nd /\ ndeleted nd = false /\
+                  nparent nd = Some p /\ p <> 0 /\ p < length (u_t s)) /\
+  (forall u v nd nd', u < n -> v < n -> u <> v ->
+     nth u (u_merged s) true = true -> nth v (u_merged s) true = true ->
+     nth_error (u_t s) (nth u (u_ids s) 0) = Some nd -> nth_error (u_t s) (nth v (u_ids s) 0) = Some nd' ->
+     nparent nd <> nparent nd').
+
+Lemma gstep n taxa s :
+  SInv O FinT n taxa s -> RInv n s -> 2 < u_k s ->
+  (exists s', ustep O n s = Ok s' /\ SInv O FinT n taxa s' /\ RInv n s' /\ u_k s' = u_k s - 1) \/
+  ustep O n s = Panic 34.
+Proof.
+  intros I [R1 R2] Hk.
+  pose proof (si_k _ _ _ _ _ I) as Kb. destruct (si_cells _ _ _ _ _ I) as [Hlen _].
+  pose proof (si_lmerged _ _ _ _ _ I) as Lm. pose proof (si_lids _ _ _ _ _ I) as Lids.
+  destruct (dm_min O (mkDmat n [] (u_cells s))) as [[[a b] d]|] eqn:Hmin.
+  2:{ exfalso. apply min_none in Hmin. simpl in Hmin. rewrite Hmin in Hlen. cbn [length] in Hlen.
+      pose proof (tril_lt n 1 0 ltac:(lia) ltac:(lia)). lia. }
+  assert (Hin : In (a, b, d) (dm_indexed (mkDmat n [] (u_cells s)))).
+  { rewrite dm_min_pick in Hmin. apply pick_in in Hmin. exact Hmin. }
+  destruct (indexed_in_range (mkDmat n [] (u_cells s)) a b d Hlen Hin) as [Hba Han]. simpl in Han.
+  assert (Hbn : b < n) by lia. assert (Hab : a <> b) by lia.
+  set (t := u_t s) in *. set (c1 := nth a (u_ids s) 0). set (c2 := nth b (u_ids s) 0).
+  destruct (si_root _ _ _ _ _ I) as (n0 & Hn0 & _). fold t in Hn0.
+  destruct (si_slots _ _ _ _ _ I _ _ Hn0) as (D0 & S2 & _). destruct (S2 eq_refl) as [P0 _].
+  (* a retired cluster among the two: the nodes are not siblings *)
+  assert (Hnodes : nth a (u_merged s) true = true \/ nth b (u_merged s) true = true ->
+            exists na nb pa pb, nth_error t c1 = Some na /\ ndeleted na = false /\ nparent na = Some pa /\
+                                nth_error t c2 = Some nb /\ ndeleted nb = false /\ nparent nb = Some pb /\ pa <> pb).
+  { intros Hor.
+    destruct (nth a (u_merged s) true) eqn:Hma; destruct (nth b (u_merged s) true) eqn:Hmb.
+    - destruct (R1 a Han Hma) as (na & pa & Hna & Da & Hpa & Hpa0 & _). fold t c1 in Hna.
+      destruct (R1 b Hbn Hmb) as (nb & pb & Hnb & Db & Hpb & Hpb0 & _). fold t c2 in Hnb.
+      exists na, nb, pa, pb. splits; auto. intros ->.
+      apply (R2 a b na nb Han Hbn Hab Hma Hmb Hna Hnb). congruence.
+    - destruct (R1 a Han Hma) as (na & pa & Hna & Da & Hpa & Hpa0 & _). fold t c1 in Hna.
+      destruct (si_par _ _ _ _ _ I b Hbn Hmb) as (nb & Hnb & Hpb). fold t c2 in Hnb.
+      destruct (si_slots _ _ _ _ _ I _ _ Hnb) as (Db & _).
+      exists na, nb, pa, 0. splits; auto.
+    - destruct (R1 b Hbn Hmb) as (nb & pb & Hnb & Db & Hpb & Hpb0 & _). fold t c2 in Hnb.
+      destruct (si_par _ _ _ _ _ I a Han Hma) as (na & Hna & Hpa). fold t c1 in Hna.
+      destruct (si_slots _ _ _ _ _ I _ _ Hna) as (Da & _).
+      exists na, nb, 0, pb. splits; auto.
+    - destruct Hor; discriminate. }
+  destruct (nth a (u_merged s) true) eqn:Hma; [|destruct (nth b (u_merged s) true) eqn:Hmb].
+  3:{ (* both live: the regular step *)
+    left.
+    destruct (SInv_step_pick O FinT n taxa s a b d (fun _ _ _ _ _ _ _ _ => Logic.I) I Hk Hmin Hba Han Hma Hmb)
+      as (t8 & Hst & I' & MF).
+    exists (st_next O n s a b d t8). splits; auto.
+    destruct (si_par _ _ _ _ _ I a Han Hma) as (n1 & Hn1 & Hp1). fold t c1 in Hn1.
+    destruct (si_par _ _ _ _ _ I b Hbn Hmb) as (n2 & Hn2 & Hp2). fold t c2 in Hn2.
+    destruct MF as (Hwf8 & Hlen8 & Hc10 & Hc20 & Hfr & _ & _ & (m2 & Hm2 & _ & _ & B3 & _ & _ & B6) & _).
+    fold t c1 c2 in Hlen8, Hc10, Hc20, Hfr, Hm2, B3.
+    assert (Hlt0 : 0 < length t) by (eapply nth_error_Some_lt; eauto).
+    assert (Mo : forall x, x <> b -> nth x (replace_nth b true (u_merged s)) true = nth x (u_merged s) true)
+      by (intros; apply nth_replace_nth_neq; auto).
+    assert (Io : forall x, x <> a -> nth x (replace_nth a (length t) (u_ids s)) 0 = nth x (u_ids s) 0)
+      by (intros; apply nth_replace_nth_neq; auto).
+    (* old retired clusters keep their node and its parent *)
+    assert (Hold : forall v, v < n -> v <> b -> nth v (u_merged s) true = true ->
+              exists p, p <> 0 /\ p < length t /\
+                forall nd', nth_error t8 (nth v (replace_nth a (length t) (u_ids s)) 0) = Some nd' ->
+                            nparent nd' = Some p /\ ndeleted nd' = false /\
+                            exists nd0, nth_error t (nth v (u_ids s) 0) = Some nd0 /\ nparent nd0 = Some p).
+    { intros v Hv Hvb Mv. destruct (R1 v Hv Mv) as (nd0 & p & Hnd0 & Dd0 & Hp & Hp0 & Hpl). fold t in Hnd0, Hpl.
+      assert (v <> a) by (intros ->; congruence). rewrite Io by auto.
+      exists p. splits; auto. intros nd' Hnd'.
+      assert (N0 : nth v (u_ids s) 0 <> 0) by (intros E; rewrite E in Hnd0; congruence).
+      assert (N1 : nth v (u_ids s) 0 <> c1) by (intros E; rewrite E in Hnd0; congruence).
+      assert (N2 : nth v (u_ids s) 0 <> c2) by (intros E; rewrite E in Hnd0; congruence).
+      destruct (Hfr _ nd0 N0 N1 N2 Hnd0) as (n' & Hn' & _ & _ & Q3 & _ & _ & Q6).
+      assert (n' = nd') by congruence. subst n'. splits; try congruence. eauto. }
+    split; cbn [st_next u_t u_ids u_merged]; fold t.
+    - intros v Hv Mv. destruct (Nat.eq_dec v b) as [->|Hvb].
+      + rewrite Io by auto. fold c2. exists m2, (length t). splits; auto; lia.
+      + rewrite Mo in Mv by auto. destruct (Hold v Hv Hvb Mv) as (p & Hp0 & Hpl & Hf).
+        assert (Hlt : nth v (replace_nth a (length t) (u_ids s)) 0 < length t8).
+        { assert (v <> a) by (intros ->; congruence). rewrite Io by auto.
+          destruct (R1 v Hv Mv) as (nd0 & ? & Hnd0 & _). apply nth_error_Some_lt in Hnd0. fold t in Hnd0. lia. }
+        destruct (nth_error t8 (nth v (replace_nth a (length t) (u_ids s)) 0)) as [nd'|] eqn:E;
+          [|apply nth_error_None in E; lia].
+        destruct (Hf nd' eq_refl) as (Q1 & Q2 & _). exists nd', p. splits; auto. lia.
+    - intros u v nd nd' Hu Hv Huv Mu Mv Hnd Hnd'.
+      destruct (Nat.eq_dec u b) as [->|Hub]; [|destruct (Nat.eq_dec v b) as [->|Hvb]].
+      + rewrite Io in Hnd by auto. fold c2 in Hnd. assert (nd = m2) by congruence. subst nd.
+        rewrite Mo in Mv by auto. destruct (Hold v Hv ltac:(auto) Mv) as (p & Hp0 & Hpl & Hf).
+        destruct (Hf nd' Hnd') as (Q1 & _). rewrite B3, Q1. intros [= E]. lia.
+      + rewrite Io in Hnd' by auto. fold c2 in Hnd'. assert (nd' = m2) by congruence. subst nd'.
+        rewrite Mo in Mu by auto. destruct (Hold u Hu Hub Mu) as (p & Hp0 & Hpl & Hf).
+        destruct (Hf nd Hnd) as (Q1 & _). rewrite B3, Q1. intros [= E]. lia.
+      + rewrite Mo in Mu, Mv by auto.
+        destruct (Hold u Hu Hub Mu) as (p & _ & _ & Hf). destruct (Hf nd Hnd) as (Q1 & _ & nd0 & Hnd0 & Hq0).
+        destruct (Hold v Hv Hvb Mv) as (q & _ & _ & Hg). destruct (Hg nd' Hnd') as (Q1' & _ & nd0' & Hnd0' & Hq0').
+        rewrite Q1, Q1'. rewrite <- Hq0, <- Hq0'. apply (R2 u v); auto.
+  }
+  all: right.
+  all: destruct Hnodes as (na & nb & pa & pb & Hna & Da & Hpa & Hnb & Db & Hpb & Hne); auto.
+  all: unfold ustep; rewrite Hmin; cbv zeta; fold t c1 c2.
+  all: unfold merge_children.
+  all: rewrite (proj2 (get_Ok t c1 na) (conj Hna Da)), (proj2 (get_Ok t c2 nb) (conj Hnb Db)).
+  all: rewrite Hpa, Hpb; simpl onat_eqb.
+  all: replace (Nat.eqb pa pb) with false by (symmetry; apply Nat.eqb_neq; auto).
+  all: reflexivity.
+Qed.
+
+Lemma uloop_run_p (Inv : ustate -> Prop) n :
+  (forall s, Inv s -> 2 < u_k s ->
+     (exists s', ustep O n s = Ok s' /\ Inv s' /\ u_k s' = u_k s - 1) \/ ustep O n s = Panic 34) ->
+  forall f s, Inv s -> u_k s <= f + 2 ->
+    (exists s', uloop O f n s = Ok (uout s') /\ Inv s' /\ u_k s' = Nat.min (u_k s) 2) \/
+    uloop O f n s = Panic 34.
+Proof.
+  intros Hstep. induction f as [|f IH]; intros s Hs Hk.
+  - left. rewrite uloop_0. destruct (Nat.leb (u_k s) 2) eqn:E; [|apply Nat.leb_gt in E; lia].
+    apply Nat.leb_le in E. exists s. splits; auto. lia.
+  - rewrite uloop_S. destruct (Nat.leb (u_k s) 2) eqn:E.
+    + left. apply Nat.leb_le in E. exists s. splits; auto. lia.
+    + apply Nat.leb_gt in E. destruct (Hstep s Hs E) as [(s1 & Hst & Hs1 & Hk1)|Hp].
+      * rewrite Hst. simpl. destruct (IH s1 Hs1 ltac:(lia)) as [(s' & Hr & Hs' & Hk')|Hp]; [left|right; auto].
+        exists s'. splits; auto. lia.
+      * right. rewrite Hp. reflexivity.
+Qed.
+
+(* for EVERY LenOps: a well-sized input either yields the tree of [UShape], or hits the unwrap at site 34 *)
+Theorem upgma_total (m : dmat) :
+  length (mtaxa m) = msize m -> 2 <= msize m -> length (mcells m) = msize m * (msize m - 1) / 2 ->
+  (exists t, upgma O m = Ok t /\ UShape (msize m) (mtaxa m) t) \/ upgma O m = Panic 34.
+Proof.
+  intros Htax Hn Hlen. set (n := msize m) in *.
+  destruct (@star_fold L (mtaxa m) [] _ [] star_init) as (t1 & ids1 & Hf & HS). simpl app in HS.
+  assert (Hids1 : ids1 = seq 1 n) by (destruct HS as (_ & _ & -> & _); rewrite Htax; reflexivity). subst ids1.
+  assert (I0 : SInv O FinT n (mtaxa m) (st_init O n (mcells m) t1)).
+  { pose proof (SInv_init O FinT (mtaxa m) (mcells m) t1) as I0. cbv zeta in I0. rewrite Htax in I0.
+    apply I0; auto. apply Forall_forall. intros; exact Logic.I. }
+  assert (R0 : RInv n (st_init O n (mcells m) t1)).
+  { split; cbn [st_init u_merged].
+    - intros u Hu Mu. rewrite nth_repeat_lt in Mu by auto. discriminate.
+    - intros u v nd nd' Hu Hv _ Mu. rewrite nth_repeat_lt in Mu by auto. discriminate. }
+  unfold star_step in Hf.
+  destruct (uloop_run_p (fun s => SInv O FinT n (mtaxa m) s /\ RInv n s) n) with (f := S n)
+    (s := st_init O n (mcells m) t1) as [(s & Hrun & [Is Rs] & Hks)|Hp]; auto.
+  { intros s0 [I1 R1] Hk. destruct (gstep n (mtaxa m) s0 I1 R1 Hk) as [(s1 & Hst & I2 & R2 & Hk1)|Hp]; auto.
+    left. exists s1. splits; auto. }
+  { simpl. lia. }
+  - left. simpl u_k in Hks. rewrite Nat.min_r in Hks by lia.
+    destruct (final_step O FinT n (mtaxa m) s Is Hks)
+      as (ai & bi & t5 & Hfil & Hai & Hbi & Hab & Mai & Mbi & Honly & Hupd & HFR).
+    exists t5. split; [|eapply final_shape; eauto].
+    unfold upgma. fold n. cbn [add app length]. rewrite Hf. cbn [bind].
+    change (upgma_loop O (S n) n (mcells m) (repeat 1 n) (repeat false n) (repeat (l0 O) n) (seq 1 n) t1 n)
+      with (uloop O (S n) n (st_init O n (mcells m) t1)).
+    rewrite Hrun. unfold uout. cbn [bind].
+    change (filter (fun i => negb (nth i (u_merged s) true)) (seq 0 n)) with (filter (unmb (u_merged s)) (seq 0 n)).
+    rewrite Hfil.
+    replace (Nat.eqb ai bi) with false by (symmetry; apply Nat.eqb_neq; auto).
+    replace (Nat.leb n ai) with false by (symmetry; apply Nat.leb_gt; auto).
+    replace (Nat.leb n bi) with false by (symmetry; apply Nat.leb_gt; auto).
+    cbn [orb]. cbv zeta in Hupd. cbv zeta. unfold two in Hupd. rewrite Hupd. reflexivity.
+  - right. unfold upgma. fold n. cbn [add app length]. rewrite Hf. cbn [bind].
+    change (upgma_loop O (S n) n (mcells m) (repeat 1 n) (repeat false n) (repeat (l0 O) n) (seq 1 n) t1 n)
+      with (uloop O (S n) n (st_init O n (mcells m) t1)).
+    rewrite Hp. reflexivity.
+Qed.
+
+End General.
+
+(* ================================================================================================== *)
+(* Part I, theorems (any LenOps; the comparison only has to keep live values below the marker)        *)
+(* ================================================================================================== *)
+Section Headlines.
+Context {L : Type}.
+Variable O : LenOps L.
+Variable Fin : L -> Prop.
+Hypothesis HSep : Separated O Fin.
+Notation arena := (@arena L).
+Notation dmat := (@dmat L).
+
+(* a well-formed input: n >= 2 named taxa, a full triangular cell vector, all cells "finite" *)
+Definition upgma_pre (m : dmat) : Prop :=
+  length (mtaxa m) = msize m /\ 2 <= msize m /\ length (mcells m) = msize m * (msize m - 1) / 2 /\
+  Forall Fin (mcells m).
+
+Theorem upgma_ok (m : dmat) : upgma_pre m -> exists t, upgma O m = Ok t.
+Proof.
+  intros (H1 & H2 & H3 & H4). destruct (upgma_ok_shape O Fin HSep m H1 H2 H3 H4) as (t & Ht & _). eauto.
+Qed.
+
+Theorem upgma_no_panic (m : dmat) :
+  upgma_pre m -> (forall k, upgma O m <> Panic k) /\ (forall e, upgma O m <> Err e) /\ upgma O m <> OutOfFuel.
+Proof. intros H. destruct (upgma_ok m H) as (t & ->). splits; intros; discriminate. Qed.
+
+Theorem upgma_shape (m : dmat) t :
+  upgma_pre m -> upgma O m = Ok t -> UShape (msize m) (mtaxa m) t.
+Proof.
+  intros (H1 & H2 & H3 & H4) Ht. destruct (upgma_ok_shape O Fin HSep m H1 H2 H3 H4) as (t' & Ht' & Hs).
+  congruence.
+Qed.
+
+Theorem upgma_lengths_present (m : dmat) t :
+  upgma_pre m -> upgma O m = Ok t ->
+  forall j nd, nth_error t j = Some nd -> j <> 0 -> npedge nd <> None.
+Proof.
+  intros Hpre Ht j nd Hnd Hj. destruct (upgma_shape m t Hpre Ht) as (_ & _ & _ & _ & H). eapply H; eauto.
+Qed.
+
+(* fewer than two taxa: the code reports IndexError (whatever the names / cells are) *)
+Theorem upgma_small (m : dmat) : msize m < 2 -> upgma O m = Err IndexError.
+Proof.
+  intros Hn. destruct (@star_fold L (mtaxa m) [] _ [] star_init) as (t1 & ids1 & Hf & _).
+  unfold star_step in Hf. unfold upgma. cbn [add app length]. rewrite Hf. cbn [bind].
+  destruct (msize m) as [|[|k]]; [reflexivity|reflexivity|lia].
+Qed.
+
+End Headlines.
+
+(* ---- consequences of the shape for the library's own predicates ---------------------------------------------- *)
+Section ShapeCorollaries.
+Context {L : Type}.
+Notation arena := (@arena L).
+Notation node := (@node L).
+
+Lemma map_filter_slots (p : node -> bool) (q : nat -> bool) : forall (t : arena) off,
+  (forall j nd, nth_error t j = Some nd -> nid nd = off + j /\ p nd = q (off + j)) ->
+  map nid (filter p t) = filter q (seq off (length t)).
+Proof.
+  induction t as [|nd t IH]; intros off H; [reflexivity|].
+  destruct (H 0 nd eq_refl) as [H1 H2]. rewrite Nat.add_0_r in H1, H2.
+  simpl. rewrite H2. rewrite <- (IH (S off)).
+  - destruct (q off); simpl; congruence.
+  - intros j nd' Hj. destruct (H (S j) nd' Hj) as [G1 G2].
+    replace (S off + j) with (off + S j) by lia. auto.
+Qed.
+
+Lemma filter_none {A} (q : A -> bool) l : (forall x, In x l -> q x = false) -> filter q l = [].
+Proof.
+  induction l; simpl; auto. intros H. rewrite (H a) by auto. apply IHl. intros; apply H; auto.
+Qed.
+
+Lemma filter_mid (q : nat -> bool) n len :
+  2 <= n -> len = 2 * n - 1 ->
+  (forall j, j < len -> q j = (Nat.leb 1 j && Nat.leb j n)) ->
+  filter q (seq 0 len) = seq 1 n.
+Proof.
+  intros Hn -> Hq. replace (2 * n - 1) with (1 + (n + (n - 2))) in * by lia.
+  rewrite seq_app, seq_app, !filter_app. simpl seq at 1. simpl filter at 1.
+  rewrite (Hq 0) by lia. simpl.
+  rewrite filter_id, filter_none.
+  - apply app_nil_r.
+  - intros x Hx. apply in_seq in Hx. rewrite Hq by lia.
+    replace (Nat.leb x n) with false by (symmetry; apply Nat.leb_gt; lia). apply andb_false_r.
+  - intros x Hx. apply in_seq in Hx. rewrite Hq by lia.
+    replace (Nat.leb 1 x) with true by (symmetry; apply Nat.leb_le; lia).
+    replace (Nat.leb x n) with true by (symmetry; apply Nat.leb_le; lia). reflexivity.
+Qed.
+
+Lemma map_names (taxa : list str) : forall off,
+  map (fun j => Some (nth (j - off) taxa [])) (seq off (length taxa)) = map Some taxa.
+Proof.
+  induction taxa as [|x tl IH]; intros off; [reflexivity|].
+  simpl length. simpl seq. simpl map. rewrite Nat.sub_diag. f_equal.
+  rewrite <- (IH (S off)). apply map_ext_in. intros j Hj. apply in_seq in Hj.
+  replace (j - off) with (S (j - S off)) by lia. reflexivity.
+Qed.
+
+Lemma mapM_all_ok {A B} (g : A -> outcome B) (f : A -> B) l :
+  (forall x, In x l -> g x = Ok (f x)) -> mapM g l = Ok (map f l).
+Proof.
+  induction l; simpl; auto. intros H. rewrite (H a) by auto. simpl. rewrite IHl; auto.
+Qed.
+
+Variable n : nat.
+Variable taxa : list str.
+Variable t : arena.
+Hypothesis Hn : 2 <= n.
+Hypothesis Htax : length taxa = n.
+Hypothesis HS : UShape n taxa t.
+
+Lemma shape_tip j nd :
+  nth_error t j = Some nd ->
+  nid nd = 0 + j /\ (negb (ndeleted nd) && is_tip nd) = (Nat.leb 1 j && Nat.leb j n).
+Proof.
+  intros Hnd. destruct HS as (_ & Hlen & Hsl & (n0 & c1 & c2 & Hn0 & Hch0 & _) & _).
+  destruct (Hsl j nd Hnd) as ((D & S2 & S3 & S4 & S5) & Hid). split; [simpl; auto|].
+  rewrite D. cbn [negb andb]. unfold is_tip.
+  destruct (Nat.eq_dec j 0) as [->|Hj0].
+  - assert (nd = n0) by congruence. subst. rewrite Hch0. reflexivity.
+  - destruct (Nat.le_gt_cases j n) as [Hle|Hgt].
+    + destruct (S3 ltac:(lia)) as [-> _].
+      replace (Nat.leb 1 j) with true by (symmetry; apply Nat.leb_le; lia).
+      replace (Nat.leb j n) with true by (symmetry; apply Nat.leb_le; lia). reflexivity.
+    + destruct (S4 Hgt) as (_ & d1 & d2 & ->).
+      replace (Nat.leb j n) with false by (symmetry; apply Nat.leb_gt; lia). rewrite andb_false_r. reflexivity.
+Qed.
+
+Theorem shape_WF : WF t.
+Proof. destruct HS as ([H _] & _). exact H. Qed.
+
+Theorem shape_get_leaves : get_leaves t = seq 1 n.
+Proof.
+  unfold get_leaves. rewrite (map_filter_slots _ (fun j => Nat.leb 1 j && Nat.leb j n) t 0).
+  - destruct HS as (_ & Hlen & _). apply filter_mid; auto.
+  - intros j nd Hnd. apply shape_tip. auto.
+Qed.
+
+Theorem shape_n_leaves : n_leaves t = n.
+Proof.
+  unfold n_leaves. rewrite <- (map_length nid). fold (get_leaves t). rewrite shape_get_leaves. apply seq_length.
+Qed.
+
+Theorem shape_leaf_names : get_leaf_names t = Ok (map Some taxa).
+Proof.
+  unfold get_leaf_names. rewrite shape_get_leaves.
+  rewrite (mapM_all_ok _ (fun j => Some (nth (j - 1) taxa []))).
+  - rewrite <- Htax. rewrite map_names. reflexivity.
+  - intros j Hj. apply in_seq in Hj. destruct HS as (_ & _ & Hsl & _).
+    assert (Hlt : j < length t) by (destruct HS as (_ & -> & _); lia).
+    destruct (nth_error t j) as [nd|] eqn:Hnd; [|apply nth_error_None in Hnd; lia].
+    destruct (Hsl j nd Hnd) as ((D & _ & S3 & _) & _). destruct (S3 ltac:(lia)) as [_ Hnm].
+    unfold get. rewrite Hnd, D, Hnm. reflexivity.
+Qed.
+
+Theorem shape_get_root : get_root t = Ok 0.
+Proof.
+  destruct HS as (_ & _ & Hsl & (n0 & c1 & c2 & Hn0 & _ & Hp0 & _) & _).
+  destruct (Hsl 0 n0 Hn0) as ((D & _) & Hid).
+  unfold get_root. destruct t as [|x t']; [discriminate|]. simpl in Hn0. injection Hn0 as ->.
+  simpl. unfold is_root. rewrite D, Hp0. simpl. congruence.
+Qed.
+
+Theorem shape_is_rooted : is_rooted t = Ok true.
+Proof.
+  unfold is_rooted. rewrite shape_get_root. simpl.
+  destruct HS as (_ & _ & Hsl & (n0 & c1 & c2 & Hn0 & Hch0 & _) & _).
+  destruct (Hsl 0 n0 Hn0) as ((D & _) & _).
+  destruct t as [|x t'] eqn:Et; [discriminate|]. rewrite <- Et in *.
+  unfold get. rewrite Hn0, D. simpl. rewrite Hch0. reflexivity.
+Qed.
+
+Theorem shape_is_binary : is_binary t = Ok true.
+Proof.
+  unfold is_binary.
+  assert (H : forall ns, (forall nd, In nd ns -> length (nchildren nd) <= 2) -> is_binary_loop t ns = Ok true).
+  { induction ns as [|nd ns IH]; intros Hall; [reflexivity|].
+    assert (Hle : length (nchildren nd) <= 2) by (apply Hall; simpl; auto).
+    simpl. rewrite shape_is_rooted. simpl.
+    replace (Nat.ltb 2 (length (nchildren nd))) with false by (symmetry; apply Nat.ltb_ge; auto).
+    destruct (nparent nd); apply IH; intros; apply Hall; simpl; auto. }
+  apply H. intros nd Hin. apply In_nth_error in Hin as (j & Hj).
+  destruct HS as (_ & _ & Hsl & (n0 & c1 & c2 & Hn0 & Hch0 & _) & _).
+  destruct (Hsl j nd Hj) as ((D & S2 & S3 & S4 & S5) & _).
+  destruct (Nat.eq_dec j 0) as [->|Hj0].
+  - assert (nd = n0) by congruence. subst. rewrite Hch0. simpl. lia.
+  - destruct (Nat.le_gt_cases j n) as [Hle|Hgt].
+    + destruct (S3 ltac:(lia)) as [-> _]. simpl. lia.
+    + destruct (S4 Hgt) as (_ & d1 & d2 & ->). simpl. lia.
+Qed.
+
+Theorem shape_rooted_binary : check_rooted_binary t = Ok tt.
+Proof. unfold check_rooted_binary. rewrite shape_is_rooted. simpl. rewrite shape_is_binary. reflexivity. Qed.
+
+End ShapeCorollaries.
+
+(* the result of upgma, seen through the library's own API: a rooted binary tree whose leaves are the taxa *)
+Theorem upgma_rooted_binary {L : Type} (O : LenOps L) (Fin : L -> Prop) (m : @dmat L) t :
+  Separated O Fin -> upgma_pre Fin m -> upgma O m = Ok t ->
+  WF t /\ check_rooted_binary t = Ok tt /\ get_root t = Ok 0 /\
+  get_leaves t = seq 1 (msize m) /\ n_leaves t = msize m /\ get_leaf_names t = Ok (map Some (mtaxa m)) /\
+  length t = 2 * msize m - 1.
+Proof.
+  intros HSep Hpre Ht. pose proof (upgma_shape O Fin HSep m t Hpre Ht) as HS.
+  destruct Hpre as (H1 & H2 & _).
+  splits.
+  - eapply shape_WF; eauto.
+  - eapply shape_rooted_binary; eauto.
+  - eapply shape_get_root; eauto.
+  - eapply shape_get_leaves; eauto.
+  - eapply shape_n_leaves; eauto.
+  - eapply shape_leaf_names; eauto.
+  - destruct HS as (_ & Hl & _). exact Hl.
+Qed.
+
+(* ================================================================================================== *)
+(* Part II: metric properties                                                                          *)
+(* ================================================================================================== *)
+(* path length from a node up to an ancestor, following parent pointers and adding the stored lengths *)
+Section Paths.
+Context {L : Type}.
+Variable O : LenOps L.
+Notation arena := (@arena L).
+
+Inductive updist (t : arena) : nat -> nat -> L -> Prop :=
+| ud_refl : forall x, updist t x x (l0 O)
+| ud_step : forall y p x e d ny,
+    nth_error t y = Some ny -> nparent ny = Some p -> npedge ny = Some e ->
+    updist t p x d -> updist t y x (ladd O e d).
+
+(* paths that stay strictly below the children of the root survive every edit that only touches the
+   root, its children, and fresh slots *)
+Lemma updist_frame (t t' : arena) y x d :
+  updist t y x d -> x <> 0 ->
+  (forall n0, nth_error t 0 = Some n0 -> nparent n0 = None) ->
+  (forall j nd, nth_error t j = Some nd -> j <> 0 -> nparent nd <> Some 0 ->
+     exists nd', nth_error t' j = Some nd' /\ nparent nd' = nparent nd /\ npedge nd' = npedge nd) ->
+  updist t' y x d.
+Proof.
+  intros H Hx Hroot Hfr. induction H as [x|y p x e d ny Hny Hp He Hd IH].
+  - constructor.
+  - assert (Hp0 : p <> 0).
+    { intros ->. inversion Hd; subst; [congruence|].
+      match goal with H1 : nth_error t 0 = Some ?n, H2 : nparent ?n = Some _ |- _ =>
+        rewrite (Hroot _ H1) in H2; discriminate end. }
+    assert (Hy0 : y <> 0) by (intros ->; rewrite (Hroot _ Hny) in Hp; discriminate).
+    destruct (Hfr y ny Hny Hy0) as (ny' & Hny' & Q1 & Q2); [congruence|].
+    apply ud_step with (p := p) (ny := ny'); auto; congruence.
+Qed.
+End Paths.
+
+(* ---- instance: canonical rationals, the marker for retired cells being a parameter B ------------------- *)
+Require Import QArith Qcanon Lqa.
+Require Qcabs.
+Local Open Scope nat_scope.
+
+Definition nq (n : nat) : Qc := Q2Qc (inject_Z (Z.of_nat n)).
+
+Definition QcOps (B : Qc) : LenOps Qc :=
+  Build_LenOps Qc 0%Qc 1%Qc Qcplus Qcminus Qcmult Qcdiv Qcabs.Qcabs
+    (fun a b => if Qclt_le_dec a b then true else false) Qc_eq_bool nq B.
+
+Lemma nq_add a b : nq (a + b) = (nq a + nq b)%Qc.
+Proof.
+  unfold nq. apply Qc_is_canon. unfold Qcplus, Qcmult, Q2Qc; cbn [this]. rewrite !Qred_correct.
+  rewrite Nat2Z.inj_add, inject_Z_plus. reflexivity.
+Qed.
+
+Lemma nq_mul a b : nq (a * b) = (nq a * nq b)%Qc.
+Proof.
+  unfold nq. apply Qc_is_canon. unfold Qcplus, Qcmult, Q2Qc; cbn [this]. rewrite !Qred_correct.
+  rewrite Nat2Z.inj_mul, inject_Z_mult. reflexivity.
+Qed.
+
+Lemma nq_pos a : 0 < a -> (0 < nq a)%Qc.
+Proof.
+  intros H. unfold nq, Qclt, Q2Qc; cbn [this]. rewrite !Qred_correct.
+  unfold Qlt. simpl. lia.
+Qed.
+
+Lemma Qc_pos_neq (x : Qc) : (0 < x)%Qc -> x <> 0%Qc.
+Proof. intros H E. rewrite E in H. apply (Qclt_not_eq _ _ H). reflexivity. Qed.
+
+Lemma nq_neq a : 0 < a -> nq a <> 0%Qc.
+Proof. intros H. apply Qc_pos_neq, nq_pos, H. Qed.
+
+Lemma Qcplus_lt_compat (a b c d : Qc) : (a < b -> c < d -> a + c < b + d)%Qc.
+Proof. unfold Qclt, Qcplus, Q2Qc; cbn [this]. rewrite !Qred_correct. intros. lra. Qed.
+
+Lemma Qcplus_pos (p q : Qc) : (0 < p -> 0 < q -> 0 < p + q)%Qc.
+Proof. intros. replace 0%Qc with (0 + 0)%Qc by ring. apply Qcplus_lt_compat; auto. Qed.
+
+Lemma avg_ge (z x y p q : Qc) : (z <= x -> z <= y -> 0 < p -> 0 < q -> z <= (p * x + q * y) / (p + q))%Qc.
+Proof.
+  intros Hx Hy Hp Hq.
+  pose proof (Qcplus_pos _ _ Hp Hq) as Hs. pose proof (Qc_pos_neq _ Hs) as Hne.
+  apply Qcmult_lt_0_le_reg_r with (z := (p + q)%Qc); auto.
+  replace ((p * x + q * y) / (p + q) * (p + q))%Qc with (x * p + y * q)%Qc by (field; auto).
+  replace (z * (p + q))%Qc with (z * p + z * q)%Qc by ring.
+  apply Qcplus_le_compat; apply Qcmult_le_compat_r; auto; apply Qclt_le_weak; auto.
+Qed.
+
+Lemma avg_lt (B x y p q : Qc) : (x < B -> y < B -> 0 < p -> 0 < q -> (p * x + q * y) / (p + q) < B)%Qc.
+Proof.
+  intros Hx Hy Hp Hq.
+  pose proof (Qcplus_pos _ _ Hp Hq) as Hs. pose proof (Qc_pos_neq _ Hs) as Hne.
+  apply Qcnot_le_lt. intros Hle.
+  apply Qcmult_le_compat_r with (z := (p + q)%Qc) in Hle; [|apply Qclt_le_weak; auto].
+  replace ((p * x + q * y) / (p + q) * (p + q))%Qc with (x * p + y * q)%Qc in Hle by (field; auto).
+  replace (B * (p + q))%Qc with (B * p + B * q)%Qc in Hle by ring.
+  apply (Qcle_not_lt _ _ Hle). apply Qcplus_lt_compat; apply Qcmult_lt_compat_r; auto.
+Qed.
+
+Lemma two_neq : (1 + 1)%Qc <> 0%Qc.
+Proof. apply Qc_pos_neq. apply Qcplus_pos; reflexivity. Qed.
+
+Ltac qc_lra :=
+  unfold Qcle, Qclt, Qcminus, Qcopp, Qcplus, Qcmult, Q2Qc in *; cbn [this] in *;
+  rewrite ?Qred_correct in *; lra.
+
+Lemma half_sum (d : Qc) : (d / (1 + 1) + d / (1 + 1) = d)%Qc.
+Proof. field. apply two_neq. Qed.
+
+Lemma qc_eq_Q (x y : Qc) : x = y -> (x == y)%Q.
+Proof. intros ->. reflexivity. Qed.
+
+(* h <= hl, 2 hl <= d: facts about nh = d/2 *)
+Lemma half_facts (h hl d : Qc) :
+  (h <= hl -> hl + hl <= d ->
+   hl <= d / (1 + 1) /\ 0 <= d / (1 + 1) - h /\ h + (d / (1 + 1) - h) <= d / (1 + 1))%Qc.
+Proof.
+  intros. pose proof (qc_eq_Q _ _ (half_sum d)) as E. set (nh := (d / (1 + 1))%Qc) in *. clearbody nh.
+  splits; qc_lra.
+Qed.
+
+Section Metric.
+Variable B : Qc.
+Notation O := (QcOps B).
+Notation arena := (@arena Qc).
+Notation ustate := (@ustate Qc).
+
+Definition FinB (x : Qc) : Prop := (x < B)%Qc.
+
+Lemma qlt_true x y : lltb O x y = true <-> (x < y)%Qc.
+Proof.
+  cbn [lltb QcOps]. destruct (Qclt_le_dec x y) as [H|H]; split; auto; try discriminate.
+  intros H'. exfalso. eapply Qcle_not_lt; eauto.
+Qed.
+
+Lemma qlt_false x y : lltb O x y = false <-> (y <= x)%Qc.
+Proof.
+  cbn [lltb QcOps]. destruct (Qclt_le_dec x y) as [H|H]; split; auto; try discriminate.
+  intros H'. exfalso. eapply Qcle_not_lt; eauto.
+Qed.
+
+Lemma avg2_Qc ca cb x y : avg2 O ca cb x y = ((nq ca * x + nq cb * y) / (nq ca + nq cb))%Qc.
+Proof. reflexivity. Qed.
+
+Lemma QcSep : Separated O FinB.
+Proof.
+  constructor; unfold FinB.
+  - intros x Hx. apply qlt_true. auto.
+  - intros x Hx. apply qlt_false. apply Qclt_le_weak. auto.
+  - intros ca cb x y Ha Hb Hx Hy. rewrite avg2_Qc. apply avg_lt; auto; apply nq_pos; auto.
+Qed.
+
+Lemma qlt_irrefl x : lltb O x x = false.
+Proof. apply qlt_false. apply Qcle_refl. Qed.
+
+Lemma qlt_trans x y z : lltb O x y = true -> lltb O y z = true -> lltb O x z = true.
+Proof. rewrite !qlt_true. apply Qclt_trans. Qed.
+
+(* appending an edge at the top of a path *)
+Lemma updist_snoc (t : arena) y x d nx p e :
+  updist O t y x d -> nth_error t x = Some nx -> nparent nx = Some p -> npedge nx = Some e ->
+  updist O t y p (d + e)%Qc.
+Proof.
+  intros H Hnx Hp He. induction H as [x|y q x e' d ny Hny Hq He' Hd IH].
+  - replace (l0 O + e)%Qc with (ladd O e (l0 O)) by (cbn [ladd l0 QcOps]; ring).
+    eapply ud_step; eauto. constructor.
+  - replace (ladd O e' d + e)%Qc with (ladd O e' (d + e)%Qc) by (cbn [ladd QcOps]; ring).
+    eapply ud_step; eauto.
+Qed.
+
+(* ---- average linkage, from its definition ------------------------------------------------------------------ *)
+Variable m0 : list Qc.      (* the input cells *)
+
+Fixpoint qsum (l : list Qc) : Qc := match l with [] => 0%Qc | x :: t => (x + qsum t)%Qc end.
+
+Lemma qsum_app l1 l2 : qsum (l1 ++ l2) = (qsum l1 + qsum l2)%Qc.
+Proof. induction l1; simpl; [ring|]. rewrite IHl1. ring. Qed.
+
+(* sum of the input distances over all pairs (i in S, j in T) *)
+Definition dsum (S T : list nat) : Qc := qsum (map (fun i => qsum (map (fun j => cell O m0 i j) T)) S).
+(* average-linkage distance between the clusters S and T *)
+Definition davg (S T : list nat) : Qc := (dsum S T / (nq (length S) * nq (length T)))%Qc.
+
+Lemma dsum_app_l S1 S2 T : dsum (S1 ++ S2) T = (dsum S1 T + dsum S2 T)%Qc.
+Proof. unfold dsum. rewrite map_app, qsum_app. reflexivity. Qed.
+
+Lemma dsum_app_r S T1 T2 : dsum S (T1 ++ T2) = (dsum S T1 + dsum S T2)%Qc.
+Proof.
+  unfold dsum. induction S as [|i S IH]; simpl; [ring|].
+  rewrite IH, map_app, qsum_app. ring.
+Qed.
+
+Lemma davg_merge_l Sa Sb Sx :
+  0 < length Sa -> 0 < length Sb -> 0 < length Sx ->
+  avg2 O (length Sa) (length Sb) (davg Sa Sx) (davg Sb Sx) = davg (Sa ++ Sb) Sx.
+Proof.
+  intros Ha Hb Hx. rewrite avg2_Qc. unfold davg. rewrite dsum_app_l, app_length, nq_add.
+  pose proof (nq_neq _ Ha). pose proof (nq_neq _ Hb). pose proof (nq_neq _ Hx).
+  assert (nq (length Sa) + nq (length Sb) <> 0)%Qc by (apply Qc_pos_neq, Qcplus_pos; apply nq_pos; auto).
+  field. auto.
+Qed.
+
+Lemma davg_merge_r Sa Sb Sx :
+  0 < length Sa -> 0 < length Sb -> 0 < length Sx ->
+  avg2 O (length Sa) (length Sb) (davg Sx Sa) (davg Sx Sb) = davg Sx (Sa ++ Sb).
+Proof.
+  intros Ha Hb Hx. rewrite avg2_Qc. unfold davg. rewrite dsum_app_r, app_length, nq_add.
+  pose proof (nq_neq _ Ha). pose proof (nq_neq _ Hb). pose proof (nq_neq _ Hx).
+  assert (nq (length Sa) + nq (length Sb) <> 0)%Qc by (apply Qc_pos_neq, Qcplus_pos; apply nq_pos; auto).
+  field. auto.
+Qed.
+
+(* ---- invariant A: clusters, ultrametricity, average linkage ------------------------------------------------ *)
+Variable n : nat.
+Variable taxa : list str.
+
+Record MInvA (s : ustate) (mem : list (list nat)) : Prop := {
+  ma_len : length mem = n;
+  ma_card : forall u, u < n -> nth u (u_merged s) true = false -> nth u (u_card s) 0 = length (nth u mem []);
+  ma_cover : forall i, i < n -> exists u, u < n /\ nth u (u_merged s) true = false /\ In i (nth u mem []);
+  ma_ultra : forall u i, u < n -> nth u (u_merged s) true = false -> In i (nth u mem []) ->
+               updist O (u_t s) (S i) (nth u (u_ids s) 0) (nth u (u_heights s) (l0 O));
+  ma_avg : forall u x, u < n -> x < n -> u <> x ->
+               nth u (u_merged s) true = false -> nth x (u_merged s) true = false ->
+               cell O (u_cells s) u x = davg (nth u mem []) (nth x mem []) }.
+
+Lemma MInvA_step s s' mem :
+  SInv O FinB n taxa s -> MInvA s mem -> 2 < u_k s -> ustep O n s = Ok s' ->
+  exists a b, b < a /\ a < n /\ nth a (u_merged s) true = false /\ nth b (u_merged s) true = false /\
+    dm_min O (mkDmat n [] (u_cells s)) = Some (a, b, cell O (u_cells s) a b) /\
+    MInvA s' (replace_nth a (nth a mem [] ++ nth b mem []) mem).
+Proof.
+  intros I M Hk Hst.
+  destruct (ustep_full O FinB QcSep n taxa s s' I Hk Hst)
+    as (a & b & d & n0 & n1 & n2 & t8 & Hmin & Hba & Han & Hma & Hmb & Hd & Hn0 & Hn1 & Hn2 & Hp1 & Hp2 & Hp0 &
+        MF & Hs' & Mu & C1 & C2).
+  exists a, b. splits; auto. { rewrite Hmin, Hd. reflexivity. }
+  destruct MF as (Hwf8 & Hlen8 & Hc10 & Hc20 & Hfr & _ &
+                  (m1 & Hm1 & _ & _ & A3 & _ & A5 & _) & (m2 & Hm2 & _ & _ & B3 & _ & B5 & _) & _).
+  set (t := u_t s) in *. set (c1 := nth a (u_ids s) 0) in *. set (c2 := nth b (u_ids s) 0) in *.
+  pose proof (ma_len _ _ M) as Lmem. pose proof (si_lids _ _ _ _ _ I) as Lids.
+  pose proof (si_lheights _ _ _ _ _ I) as Lh. pose proof (si_lcard _ _ _ _ _ I) as Lcard.
+  assert (Hbn : b < n) by lia. assert (Hab : a <> b) by lia.
+  set (mem' := replace_nth a (nth a mem [] ++ nth b mem []) mem).
+  assert (Ea : nth a mem' [] = nth a mem [] ++ nth b mem []) by (apply nth_replace_nth_eq; lia).
+  assert (Eo : forall x, x <> a -> nth x mem' [] = nth x mem []) by (intros; apply nth_replace_nth_neq; auto).
+  assert (Em : u_merged s' = replace_nth b true (u_merged s)) by (rewrite Hs'; reflexivity).
+  assert (Ei : u_ids s' = replace_nth a (length t) (u_ids s)) by (rewrite Hs'; reflexivity).
+  assert (Eh : u_heights s' = replace_nth a (ladd O (nth a (u_heights s) (l0 O))
+                   (lsub O (ldiv O d (two O)) (nth a (u_heights s) (l0 O)))) (u_heights s))
+    by (rewrite Hs'; reflexivity).
+  assert (Ec : u_card s' = replace_nth a (nth a (u_card s) 0 + nth b (u_card s) 0) (u_card s))
+    by (rewrite Hs'; reflexivity).
+  assert (Et : u_t s' = t8) by (rewrite Hs'; reflexivity).
+  pose proof (ma_card _ _ M a Han Hma) as Ka. pose proof (ma_card _ _ M b Hbn Hmb) as Kb.
+  pose proof (si_card _ _ _ _ _ I a Han Hma) as Pa. pose proof (si_card _ _ _ _ _ I b Hbn Hmb) as Pb.
+  (* frame for paths *)
+  assert (Hroot : forall r, nth_error t 0 = Some r -> nparent r = None) by (intros r Hr; congruence).
+  assert (Hframe : forall j nd, nth_error t j = Some nd -> j <> 0 -> nparent nd <> Some 0 ->
+            exists nd', nth_error t8 j = Some nd' /\ nparent nd' = nparent nd /\ npedge nd' = npedge nd).
+  { intros j nd Hnd Hj0 Hpar.
+    assert (j <> c1) by (intros ->; congruence). assert (j <> c2) by (intros ->; congruence).
+    destruct (Hfr j nd Hj0 H H0 Hnd) as (nd' & Hnd' & _ & _ & Q3 & _ & Q5 & _). eauto. }
+  assert (Hid0 : forall u, u < n -> nth u (u_merged s) true = false -> nth u (u_ids s) 0 <> 0).
+  { intros u Hu Hmu E. destruct (si_par _ _ _ _ _ I u Hu Hmu) as (nd & Hnd & Hpd). fold t in Hnd.
+    rewrite E in Hnd. congruence. }
+  constructor.
+  - unfold mem'. rewrite replace_nth_length. auto.
+  - intros u Hu Mu'. apply Mu in Mu' as [Hub Mu']. rewrite Ec.
+    destruct (Nat.eq_dec u a) as [->|Hua].
+    + rewrite nth_replace_nth_eq by lia. rewrite Ea, app_length. lia.
+    + rewrite nth_replace_nth_neq by auto. rewrite Eo by auto. apply (ma_card _ _ M); auto.
+  - intros i Hi. destruct (ma_cover _ _ M i Hi) as (u & Hu & Hmu & Hin).
+    destruct (Nat.eq_dec u a) as [->|Hua]; [|destruct (Nat.eq_dec u b) as [->|Hub]].
+    + exists a. splits; auto. { apply Mu. auto. } rewrite Ea. apply in_or_app; auto.
+    + exists a. splits; auto. { apply Mu. auto. } rewrite Ea. apply in_or_app; auto.
+    + exists u. splits; auto. { apply Mu. auto. } rewrite Eo; auto.
+  - intros u i Hu Mu' Hin. apply Mu in Mu' as [Hub Mu']. rewrite Et, Ei, Eh.
+    destruct (Nat.eq_dec u a) as [->|Hua].
+    + rewrite !nth_replace_nth_eq by lia. rewrite Ea in Hin. apply in_app_or in Hin as [Hin|Hin].
+      * pose proof (ma_ultra _ _ M a i Han Hma Hin) as P. fold t c1 in P.
+        apply (updist_frame O t t8) in P; auto; try (apply Hid0; auto).
+        apply (updist_snoc t8 _ _ _ m1 (length t) _ P); auto.
+      * pose proof (ma_ultra _ _ M b i Hbn Hmb Hin) as P. fold t c2 in P.
+        apply (updist_frame O t t8) in P; auto; try (apply Hid0; auto).
+        pose proof (updist_snoc t8 _ _ _ m2 (length t) _ P Hm2 B3 B5) as P2.
+        replace (ladd O (nth a (u_heights s) (l0 O)) (lsub O (ldiv O d (two O)) (nth a (u_heights s) (l0 O))))
+          with (nth b (u_heights s) (l0 O) + lsub O (ldiv O d (two O)) (nth b (u_heights s) (l0 O)))%Qc; auto.
+        cbn [ladd lsub QcOps]. ring.
+    + rewrite !nth_replace_nth_neq by auto. rewrite Eo in Hin by auto.
+      pose proof (ma_ultra _ _ M u i Hu Mu' Hin) as P. fold t in P.
+      apply (updist_frame O t t8) in P; auto; try (apply Hid0; auto).
+  - intros u x Hu Hx Hux Mu' Mx'. pose proof Mu' as Mu2. pose proof Mx' as Mx2.
+    apply Mu in Mu' as [Hub Mu']. apply Mu in Mx' as [Hxb Mx'].
+    pose proof (ma_card _ _ M x Hx Mx') as Kx. pose proof (si_card _ _ _ _ _ I x Hx Mx') as Px.
+    pose proof (ma_card _ _ M u Hu Mu') as Ku. pose proof (si_card _ _ _ _ _ I u Hu Mu') as Pu.
+    destruct (Nat.eq_dec u a) as [->|Hua].
+    + rewrite Ea, Eo by auto. rewrite C1; auto.
+      rewrite (cell_sym O _ x a), (cell_sym O _ x b).
+      rewrite (ma_avg _ _ M a x), (ma_avg _ _ M b x); auto.
+      rewrite Ka, Kb. apply davg_merge_l; lia.
+    + destruct (Nat.eq_dec x a) as [->|Hxa].
+      * rewrite Ea, Eo by auto. rewrite cell_sym, C1; auto.
+        rewrite (ma_avg _ _ M u a), (ma_avg _ _ M u b); auto.
+        rewrite Ka, Kb. apply davg_merge_r; lia.
+      * rewrite !Eo by auto. rewrite C2; auto. apply (ma_avg _ _ M); auto.
+Qed.
+
+
+(* ---- invariant B: monotone merge heights, non-negative lengths --------------------------------------------- *)
+Record MInvB (s : ustate) (hl : Qc) : Prop := {
+  mb_low : forall u, u < n -> nth u (u_merged s) true = false -> (nth u (u_heights s) (l0 O) <= hl)%Qc;
+  mb_mono : forall u x, u < n -> x < n -> u <> x ->
+              nth u (u_merged s) true = false -> nth x (u_merged s) true = false ->
+              (hl + hl <= cell O (u_cells s) u x)%Qc;
+  mb_nonneg : forall j nd e, nth_error (u_t s) j = Some nd -> npedge nd = Some e -> (0 <= e)%Qc }.
+
+Lemma MInvB_step s s' hl :
+  SInv O FinB n taxa s -> MInvB s hl -> 2 < u_k s -> ustep O n s = Ok s' ->
+  exists a b, dm_min O (mkDmat n [] (u_cells s)) = Some (a, b, cell O (u_cells s) a b) /\
+    (hl <= cell O (u_cells s) a b / (1 + 1))%Qc /\
+    MInvB s' (cell O (u_cells s) a b / (1 + 1))%Qc.
+Proof.
+  intros I M Hk Hst.
+  destruct (ustep_full O FinB QcSep n taxa s s' I Hk Hst)
+    as (a & b & d & n0 & n1 & n2 & t8 & Hmin & Hba & Han & Hma & Hmb & Hd & Hn0 & Hn1 & Hn2 & Hp1 & Hp2 & Hp0 &
+        MF & Hs' & Mu & C1 & C2).
+  exists a, b. rewrite <- Hd. split; auto.
+  destruct MF as (Hwf8 & Hlen8 & Hc10 & Hc20 & Hfr & (P' & HP' & _ & _ & _ & PQ4 & _) &
+                  (m1 & Hm1 & _ & _ & A3 & _ & A5 & _) & (m2 & Hm2 & _ & _ & B3 & _ & B5 & _) &
+                  (nu & Hnu & _ & _ & _ & _ & U5 & _)).
+  set (t := u_t s) in *. set (c1 := nth a (u_ids s) 0) in *. set (c2 := nth b (u_ids s) 0) in *.
+  pose proof (si_lheights _ _ _ _ _ I) as Lh.
+  assert (Hbn : b < n) by lia. assert (Hab : a <> b) by lia.
+  destruct (si_cells _ _ _ _ _ I) as [Hlen _].
+  destruct (min_is_minimal O qlt_irrefl qlt_trans _ _ _ _ Hmin) as (k & _ & _ & _ & _ & Hminall).
+  simpl mcells in Hminall.
+  assert (Hdmin : forall u x, u < n -> x < n -> u <> x -> (d <= cell O (u_cells s) u x)%Qc).
+  { intros u x Hu Hx Hux. apply qlt_false. apply (Hminall (tril_idx u x)).
+    unfold cell. apply nth_error_of_nth. rewrite Hlen. apply tril_lt_any; auto. }
+  assert (Eh : u_heights s' = replace_nth a (ladd O (nth a (u_heights s) (l0 O))
+                   (lsub O (ldiv O d (two O)) (nth a (u_heights s) (l0 O)))) (u_heights s))
+    by (rewrite Hs'; reflexivity).
+  assert (Et : u_t s' = t8) by (rewrite Hs'; reflexivity).
+  pose proof (mb_mono _ _ M a b Han Hbn Hab Hma Hmb) as Hhl. rewrite <- Hd in Hhl.
+  destruct (half_facts _ _ _ (mb_low _ _ M a Han Hma) Hhl) as (F1 & F2 & F3).
+  destruct (half_facts _ _ _ (mb_low _ _ M b Hbn Hmb) Hhl) as (_ & G2 & _).
+  pose proof (si_card _ _ _ _ _ I a Han Hma) as Pa. pose proof (si_card _ _ _ _ _ I b Hbn Hmb) as Pb.
+  split; auto. constructor.
+  - intros u Hu Mu'. apply Mu in Mu' as [Hub Mu']. rewrite Eh.
+    destruct (Nat.eq_dec u a) as [->|Hua].
+    + rewrite nth_replace_nth_eq by lia. exact F3.
+    + rewrite nth_replace_nth_neq by auto. eapply Qcle_trans; [apply (mb_low _ _ M); auto|auto].
+  - intros u x Hu Hx Hux Mu' Mx'. pose proof Mu' as Mu2. pose proof Mx' as Mx2.
+    apply Mu in Mu' as [Hub Mu']. apply Mu in Mx' as [Hxb Mx'].
+    rewrite half_sum.
+    destruct (Nat.eq_dec u a) as [->|Hua].
+    + rewrite C1; auto. rewrite avg2_Qc. apply avg_ge; try (apply nq_pos; auto); apply Hdmin; auto.
+    + destruct (Nat.eq_dec x a) as [->|Hxa].
+      * rewrite cell_sym, C1; auto. rewrite avg2_Qc. apply avg_ge; try (apply nq_pos; auto); apply Hdmin; auto.
+      * rewrite C2; auto.
+  - intros j nd e Hnd He. rewrite Et in Hnd.
+    assert (Hj : j < S (length t)) by (rewrite <- Hlen8; eapply nth_error_Some_lt; eauto).
+    destruct (Nat.eq_dec j (length t)) as [->|Hjn]; [congruence|].
+    destruct (Nat.eq_dec j 0) as [->|Hj0].
+    { assert (nd = P') by congruence. subst nd. apply (mb_nonneg _ _ M 0 n0); auto. congruence. }
+    destruct (Nat.eq_dec j c1) as [->|Hj1].
+    { assert (nd = m1) by congruence. subst nd. rewrite A5 in He. injection He as <-. exact F2. }
+    destruct (Nat.eq_dec j c2) as [->|Hj2].
+    { assert (nd = m2) by congruence. subst nd. rewrite B5 in He. injection He as <-. exact G2. }
+    destruct (nth_error t j) as [nj|] eqn:Hnj; [|apply nth_error_None in Hnj; lia].
+    destruct (Hfr j nj Hj0 Hj1 Hj2 Hnj) as (n' & Hn' & _ & _ & _ & _ & Q5 & _).
+    assert (n' = nd) by congruence. subst n'. apply (mb_nonneg _ _ M j nj); auto. congruence.
+Qed.
+
+
+(* ---- initial state --------------------------------------------------------------------------------------------- *)
+Lemma nth_singletons u : u < n -> nth u (map (fun i => [i]) (seq 0 n)) [] = [u].
+Proof.
+  intros Hu. apply nth_of_nth_error. rewrite nth_error_map.
+  rewrite (nth_error_of_nth (seq 0 n) u 0) by (rewrite seq_length; auto). rewrite seq_nth by auto. reflexivity.
+Qed.
+
+Lemma davg_singletons u x : davg [u] [x] = cell O m0 u x.
+Proof.
+  unfold davg, dsum. cbn [map qsum length]. change (nq 1) with 1%Qc. field. discriminate.
+Qed.
+
+Lemma MInvA_init t1 :
+  StarInv taxa t1 (seq 1 n) -> MInvA (st_init O n m0 t1) (map (fun i => [i]) (seq 0 n)).
+Proof.
+  intros HS. constructor; cbn [st_init u_card u_merged u_t u_ids u_heights u_cells].
+  - rewrite map_length, seq_length. reflexivity.
+  - intros u Hu _. rewrite nth_singletons, nth_repeat_lt by auto. reflexivity.
+  - intros i Hi. exists i. splits; auto. { apply nth_repeat_lt; auto. } rewrite nth_singletons by auto. simpl; auto.
+  - intros u i Hu _ Hin. rewrite nth_singletons in Hin by auto. destruct Hin as [<-|[]].
+    rewrite seq_nth by auto. rewrite nth_repeat_lt by auto. constructor.
+  - intros u x Hu Hx _ _ _. rewrite !nth_singletons by auto. symmetry. apply davg_singletons.
+Qed.
+
+Lemma MInvB_init t1 :
+  length taxa = n -> length m0 = n * (n - 1) / 2 -> Forall (fun x => 0 <= x)%Qc m0 ->
+  StarInv taxa t1 (seq 1 n) -> MInvB (st_init O n m0 t1) 0%Qc.
+Proof.
+  intros Htax Hlen Hpos (_ & Hlt & _ & (r0 & Hr0 & _ & _ & _ & _ & Hpe0) & Hsl).
+  constructor; cbn [st_init u_card u_merged u_t u_ids u_heights u_cells].
+  - intros u Hu _. rewrite nth_repeat_lt by auto. apply Qcle_refl.
+  - intros u x Hu Hx Hux _ _. replace (0 + 0)%Qc with 0%Qc by ring.
+    rewrite Forall_forall in Hpos. apply Hpos. unfold cell. apply nth_In. rewrite Hlen. apply tril_lt_any; auto.
+  - intros j nd e Hnd He. exfalso.
+    assert (j < S n) by (rewrite <- Htax, <- Hlt; eapply nth_error_Some_lt; eauto).
+    destruct (Nat.eq_dec j 0) as [->|Hj0]; [congruence|].
+    destruct (Hsl j ltac:(lia)) as (nd' & Hnd' & _ & _ & _ & _ & Hpe). congruence.
+Qed.
+
+
+(* ---- the definitional algorithm and the trace of merges ------------------------------------------------------- *)
+(* Average linkage "from its definition": starting from a list of clusters, repeatedly pick two clusters A, B whose
+   average distance [davg A B] is minimal among all pairs of distinct clusters, replace them by their union and
+   record (A, B, davg A B / 2).  Cluster lists are taken up to permutation; ties may be broken arbitrarily. *)
+Definition mtrace := list (list nat * list nat * Qc).
+
+Inductive al_steps : list (list nat) -> mtrace -> list (list nat) -> Prop :=
+| al_nil : forall cl, al_steps cl [] cl
+| al_snoc : forall cl tr cl1 A Bc rest cl2,
+    al_steps cl tr cl1 ->
+    Permutation cl1 (A :: Bc :: rest) ->
+    (forall C D rest', Permutation cl1 (C :: D :: rest') -> (davg A Bc <= davg C D)%Qc) ->
+    Permutation cl2 ((A ++ Bc) :: rest) ->
+    al_steps cl (tr ++ [(A, Bc, (davg A Bc / (1 + 1))%Qc)]) cl2.
+
+Definition singles : list (list nat) := map (fun i => [i]) (seq 0 n).
+Definition active (s : ustate) (mem : list (list nat)) : list (list nat) :=
+  map (fun u => nth u mem []) (filter (unmb (u_merged s)) (seq 0 n)).
+
+Lemma filter_extract (p : nat -> bool) l a :
+  NoDup l -> In a l -> p a = true ->
+  Permutation (filter p l) (a :: filter (fun x => p x && negb (Nat.eqb x a)) l).
+Proof.
+  induction l as [|y l IH]; intros Hnd Hin Hp; [destruct Hin|].
+  inversion Hnd; subst. simpl. destruct Hin as [->|Hin].
+  - rewrite Hp, Nat.eqb_refl. simpl. constructor.
+    rewrite (filter_ext_in (fun x => p x && negb (Nat.eqb x a)) p); auto.
+    intros x Hx. destruct (Nat.eqb x a) eqn:E; [apply Nat.eqb_eq in E; subst; contradiction|].
+    rewrite andb_true_r. reflexivity.
+  - assert (y <> a) by (intros ->; contradiction).
+    replace (Nat.eqb y a) with false by (symmetry; apply Nat.eqb_neq; auto). rewrite andb_true_r.
+    destruct (p y).
+    + eapply perm_trans; [apply perm_skip; apply IH; auto|]. apply perm_swap.
+    + apply IH; auto.
+Qed.
+
+Record MInvT (s : ustate) (mem : list (list nat)) (tr : mtrace) : Prop := {
+  mt_len : length tr + u_k s = n;
+  mt_run : al_steps singles tr (active s mem);
+  mt_tree : forall k A Bc h, nth_error tr k = Some (A, Bc, h) ->
+              forall i, In i (A ++ Bc) -> updist O (u_t s) (S i) (n + 1 + k) h }.
+
+Lemma MInvT_init t1 : MInvT (st_init O n m0 t1) (map (fun i => [i]) (seq 0 n)) [].
+Proof.
+  constructor; cbn [st_init u_k u_merged u_t length].
+  - lia.
+  - unfold active. cbn [st_init u_merged].
+    rewrite filter_id.
+    + replace (map (fun u => nth u (map (fun i => [i]) (seq 0 n)) []) (seq 0 n)) with singles; [constructor|].
+      unfold singles. apply map_ext_in. intros u Hu. apply in_seq in Hu. rewrite nth_singletons; auto. lia.
+    + intros x Hx. apply in_seq in Hx. unfold unmb. rewrite nth_repeat_lt by lia. reflexivity.
+  - intros k A Bc h Hk. destruct k; discriminate.
+Qed.
+
+Lemma MInvT_step s s' mem tr :
+  SInv O FinB n taxa s -> MInvA s mem -> MInvT s mem tr -> 2 < u_k s -> ustep O n s = Ok s' ->
+  exists mem' tr', MInvA s' mem' /\ MInvT s' mem' tr'.
+Proof.
+  intros I M T Hk Hst.
+  destruct (MInvA_step s s' mem I M Hk Hst) as (a & b & Hba & Han & Hma & Hmb & Hmin & M').
+  destruct (ustep_full O FinB QcSep n taxa s s' I Hk Hst)
+    as (a' & b' & d & n0 & n1 & n2 & t8 & Hmin' & _ & _ & _ & _ & Hd & Hn0 & Hn1 & Hn2 & Hp1 & Hp2 & Hp0 &
+        MF & Hs' & Mu & _ & _).
+  rewrite Hmin in Hmin'. injection Hmin' as <- <- <-. clear Hd.
+  set (d := cell O (u_cells s) a b) in *. assert (Hd : d = cell O (u_cells s) a b) by reflexivity.
+  set (mem' := replace_nth a (nth a mem [] ++ nth b mem []) mem) in *.
+  set (A := nth a mem []) in *. set (Bc := nth b mem []) in *.
+  exists mem', (tr ++ [(A, Bc, (davg A Bc / (1 + 1))%Qc)]). split; auto.
+  assert (Hbn : b < n) by lia. assert (Hab : a <> b) by lia.
+  pose proof (ma_len _ _ M) as Lmem. pose proof (si_lmerged _ _ _ _ _ I) as Lm.
+  destruct MF as (Hwf8 & Hlen8 & Hc10 & Hc20 & Hfr & _ & _ & _ & _).
+  set (t := u_t s) in *. set (c1 := nth a (u_ids s) 0) in *. set (c2 := nth b (u_ids s) 0) in *.
+  assert (Et : u_t s' = t8) by (rewrite Hs'; reflexivity).
+  assert (Ek : u_k s' = u_k s - 1) by (rewrite Hs'; reflexivity).
+  assert (Em : u_merged s' = replace_nth b true (u_merged s)) by (rewrite Hs'; reflexivity).
+  assert (Ei : u_ids s' = replace_nth a (length t) (u_ids s)) by (rewrite Hs'; reflexivity).
+  assert (Eh : u_heights s' = replace_nth a (ladd O (nth a (u_heights s) (l0 O))
+                   (lsub O (ldiv O d (two O)) (nth a (u_heights s) (l0 O)))) (u_heights s))
+    by (rewrite Hs'; reflexivity).
+  pose proof (si_len _ _ _ _ _ I) as Klen. fold t in Klen. pose proof (mt_len _ _ _ T) as Tlen.
+  assert (Hdab : d = davg A Bc) by (rewrite Hd; apply (ma_avg _ _ M); auto).
+  (* minimality of the picked cell *)
+  destruct (si_cells _ _ _ _ _ I) as [Hlen _].
+  destruct (min_is_minimal O qlt_irrefl qlt_trans _ _ _ _ Hmin) as (k0 & _ & _ & _ & _ & Hminall).
+  simpl mcells in Hminall.
+  assert (Hdmin : forall u x, u < n -> x < n -> u <> x -> (d <= cell O (u_cells s) u x)%Qc).
+  { intros u x Hu Hx Hux. apply qlt_false. apply (Hminall (tril_idx u x)).
+    unfold cell. apply nth_error_of_nth. rewrite Hlen. apply tril_lt_any; auto. }
+  set (l := seq 0 n). assert (Hndl : NoDup l) by apply seq_NoDup.
+  assert (Hal : In a l) by (apply in_seq; lia). assert (Hbl : In b l) by (apply in_seq; lia).
+  set (p := unmb (u_merged s)).
+  assert (Hpa : p a = true) by (unfold p, unmb; rewrite Hma; reflexivity).
+  assert (Hpb : p b = true) by (unfold p, unmb; rewrite Hmb; reflexivity).
+  set (restl := filter (fun x => (p x && negb (Nat.eqb x a)) && negb (Nat.eqb x b)) l).
+  assert (P1 : Permutation (filter p l) (a :: b :: restl)).
+  { eapply perm_trans; [apply filter_extract with (a := a); auto|]. apply perm_skip.
+    apply filter_extract with (p := fun x => p x && negb (Nat.eqb x a)); auto.
+    rewrite Hpb. simpl. apply negb_true_iff, Nat.eqb_neq. auto. }
+  assert (P2 : Permutation (filter (unmb (u_merged s')) l) (a :: restl)).
+  { rewrite (filter_ext (unmb (u_merged s')) (fun x => p x && negb (Nat.eqb x b))).
+    - eapply perm_trans; [apply filter_extract with (a := a); auto|].
+      + rewrite Hpa. simpl. apply negb_true_iff, Nat.eqb_neq. auto.
+      + apply perm_skip. unfold restl. erewrite filter_ext; [reflexivity|].
+        intros x. simpl. destruct (p x), (Nat.eqb x a), (Nat.eqb x b); reflexivity.
+    - intros x. unfold p, unmb. rewrite Em. destruct (Nat.eq_dec x b) as [->|Hxb].
+      + rewrite nth_replace_nth_eq by lia. rewrite Nat.eqb_refl, andb_false_r. reflexivity.
+      + rewrite nth_replace_nth_neq by auto.
+        replace (Nat.eqb x b) with false by (symmetry; apply Nat.eqb_neq; auto). rewrite andb_true_r. reflexivity. }
+  constructor.
+  - rewrite app_length. simpl. lia.
+  - apply al_snoc with (cl1 := active s mem) (rest := map (fun u => nth u mem []) restl).
+    + apply (mt_run _ _ _ T).
+    + unfold active. fold l p. apply (Permutation_map (fun u => nth u mem [])) in P1. exact P1.
+    + intros C D rest' HP. unfold active in HP. fold l p in HP.
+      apply Permutation_sym in HP. apply Permutation_map_inv in HP as (l3 & Heq & HP3).
+      destruct l3 as [|u [|x l3]]; try discriminate. injection Heq as -> -> _.
+      assert (Hnd3 : NoDup (u :: x :: l3)) by (eapply Permutation_NoDup; [exact HP3|apply NoDup_filter; auto]).
+      assert (Hux : u <> x) by (inversion Hnd3; subst; simpl in *; intuition).
+      assert (Hu : In u (filter p l)) by (eapply Permutation_in; [apply Permutation_sym; exact HP3|simpl; auto]).
+      assert (Hx : In x (filter p l)) by (eapply Permutation_in; [apply Permutation_sym; exact HP3|simpl; auto]).
+      apply filter_In in Hu as [Hu1 Hu2]. apply filter_In in Hx as [Hx1 Hx2].
+      apply in_seq in Hu1, Hx1. unfold p, unmb in Hu2, Hx2. apply negb_true_iff in Hu2, Hx2.
+      rewrite <- Hdab. rewrite <- (ma_avg _ _ M u x); auto; try lia. apply Hdmin; lia.
+    + unfold active. fold l. apply (Permutation_map (fun u => nth u mem' [])) in P2.
+      eapply perm_trans; [exact P2|]. simpl.
+      replace (nth a mem' []) with (A ++ Bc) by (symmetry; apply nth_replace_nth_eq; lia).
+      apply perm_skip. erewrite map_ext_in; [reflexivity|].
+      intros x Hx. unfold restl in Hx. apply filter_In in Hx as [_ Hx].
+      apply andb_true_iff in Hx as [Hx _]. apply andb_true_iff in Hx as [_ Hx].
+      apply negb_true_iff, Nat.eqb_neq in Hx. unfold mem'. apply nth_replace_nth_neq; auto.
+  - intros k A' B' h Hk' i Hi. rewrite Et.
+    destruct (Nat.lt_ge_cases k (length tr)) as [Hlt|Hge].
+    + rewrite nth_error_app1 in Hk' by auto.
+      pose proof (mt_tree _ _ _ T k A' B' h Hk' i Hi) as P. fold t in P.
+      apply (updist_frame O t t8) in P; auto; try lia.
+      * intros r Hr. congruence.
+      * intros j nd Hnd Hj0 Hpar.
+        assert (j <> c1) by (intros ->; congruence). assert (j <> c2) by (intros ->; congruence).
+        destruct (Hfr j nd Hj0 H H0 Hnd) as (nd' & Hnd' & _ & _ & Q3 & _ & Q5 & _). eauto.
+    + rewrite nth_error_app2 in Hk' by auto.
+      destruct (k - length tr) as [|k'] eqn:Ek'; [|destruct k'; discriminate].
+      injection Hk' as <- <- <-. assert (k = length tr) by lia. subst k.
+      replace (n + 1 + length tr) with (length t) by lia.
+      pose proof (ma_ultra _ _ M' a i Han) as P. rewrite Et, Ei, Eh in P.
+      rewrite !nth_replace_nth_eq in P by (rewrite ?(si_lids _ _ _ _ _ I), ?(si_lheights _ _ _ _ _ I); lia).
+      replace (davg A Bc / (1 + 1))%Qc with
+        (ladd O (nth a (u_heights s) (l0 O)) (lsub O (ldiv O d (two O)) (nth a (u_heights s) (l0 O)))).
+      * apply P. { apply Mu. auto. } unfold mem'. rewrite nth_replace_nth_eq by lia. exact Hi.
+      * rewrite <- Hdab. unfold two. cbn [ladd lsub ldiv l1 QcOps]. ring.
+Qed.
+
+
+(* ---- unambiguous minima: the definitional run is unique (clusters as sets) ------------------------------------ *)
+Lemma qsum_perm l l' : Permutation l l' -> qsum l = qsum l'.
+Proof. induction 1; simpl; try congruence; ring. Qed.
+
+Lemma dsum_perm S S' T T' : Permutation S S' -> Permutation T T' -> dsum S T = dsum S' T'.
+Proof.
+  intros HS HT. unfold dsum.
+  rewrite (qsum_perm _ _ (Permutation_map (fun i => qsum (map (fun j => cell O m0 i j) T)) HS)).
+  f_equal. apply map_ext. intros i. apply qsum_perm. apply Permutation_map. auto.
+Qed.
+
+Lemma davg_perm S S' T T' : Permutation S S' -> Permutation T T' -> davg S T = davg S' T'.
+Proof.
+  intros HS HT. unfold davg. rewrite (dsum_perm _ _ _ _ HS HT).
+  rewrite (Permutation_length HS), (Permutation_length HT). reflexivity.
+Qed.
+
+Lemma davg_sym S T : davg S T = davg T S.
+Proof.
+  unfold davg. replace (dsum S T) with (dsum T S); [f_equal; ring|].
+  unfold dsum. revert T. induction S as [|i S IH]; intros T; simpl.
+  - induction T; simpl; auto. rewrite IHT. ring.
+  - rewrite <- IH. clear IH. induction T as [|j T IHT]; simpl; [ring|].
+    rewrite IHT. rewrite (cell_sym O m0 j i). ring.
+Qed.
+
+(* cluster lists up to reordering the list and the members of each cluster *)
+Definition ceq (cl cl' : list (list nat)) : Prop :=
+  exists cl'', Permutation cl cl'' /\ Forall2 (@Permutation nat) cl'' cl'.
+
+Lemma Forall2_perm_refl (l : list (list nat)) : Forall2 (@Permutation nat) l l.
+Proof. induction l; constructor; auto. Qed.
+
+Lemma Forall2_perm_sym (l l' : list (list nat)) :
+  Forall2 (@Permutation nat) l l' -> Forall2 (@Permutation nat) l' l.
+Proof. induction 1; constructor; auto. apply Permutation_sym; auto. Qed.
+
+Lemma ceq_refl cl : ceq cl cl.
+Proof. exists cl. split; auto. apply Forall2_perm_refl. Qed.
+
+Lemma ceq_perm_l cl0 cl cl' : Permutation cl0 cl -> ceq cl cl' -> ceq cl0 cl'.
+Proof. intros HP (c & H1 & H2). exists c. split; auto. eapply perm_trans; eauto. Qed.
+
+Lemma ceq_perm_r cl cl' cl0 : ceq cl cl' -> Permutation cl' cl0 -> ceq cl cl0.
+Proof.
+  intros (c & H1 & H2) HP.
+  destruct (Forall2_perm _ _ _ _ (Forall2_perm_sym _ _ H2) (Permutation_sym HP)) as (c' & H3 & H4).
+  exists c'. split; [eapply perm_trans; [exact H1|apply Permutation_sym; exact H4]|]. apply Forall2_perm_sym; auto.
+Qed.
+
+Lemma ceq_sym cl cl' : ceq cl cl' -> ceq cl' cl.
+Proof.
+  intros (c & H1 & H2). eapply ceq_perm_r; [|apply Permutation_sym; exact H1].
+  exists cl'. split; auto. apply Forall2_perm_sym; auto.
+Qed.
+
+Lemma ceq_cons A A' cl cl' : Permutation A A' -> ceq cl cl' -> ceq (A :: cl) (A' :: cl').
+Proof. intros HA (c & H1 & H2). exists (A :: c). split; auto. Qed.
+
+(* pulling a pair of clusters back through the equivalence *)
+Lemma ceq_extract2 cl cl' A' B' rest' :
+  ceq cl cl' -> Permutation cl' (A' :: B' :: rest') ->
+  exists C D rest, Permutation cl (C :: D :: rest) /\ Permutation C A' /\ Permutation D B' /\ ceq rest rest'.
+Proof.
+  intros Hc HP. pose proof (ceq_perm_r _ _ _ Hc HP) as (c & H1 & H2).
+  inversion H2 as [|C ? c1 ? HC H3]; subst. inversion H3 as [|D ? c2 ? HD H4]; subst.
+  exists C, D, c2. splits; auto. exists c2. split; auto.
+Qed.
+
+(* a step at which the minimum is attained by exactly one pair of clusters *)
+Inductive al_strict : list (list nat) -> mtrace -> list (list nat) -> Prop :=
+| als_nil : forall cl, al_strict cl [] cl
+| als_snoc : forall cl tr cl1 A Bc rest cl2,
+    al_strict cl tr cl1 ->
+    Permutation cl1 (A :: Bc :: rest) ->
+    (forall C D rest', Permutation cl1 (C :: D :: rest') ->
+       (davg A Bc < davg C D)%Qc \/ (C = A /\ D = Bc) \/ (C = Bc /\ D = A)) ->
+    Permutation cl2 ((A ++ Bc) :: rest) ->
+    al_strict cl (tr ++ [(A, Bc, (davg A Bc / (1 + 1))%Qc)]) cl2.
+
+(* same merges: equal heights, equal pairs of clusters as sets *)
+Definition meq (e e' : list nat * list nat * Qc) : Prop :=
+  let '(A, Bc, h) := e in let '(A', B', h') := e' in
+  h = h' /\ ((Permutation A A' /\ Permutation Bc B') \/ (Permutation A B' /\ Permutation Bc A')).
+
+Theorem al_unique : forall cl tr1 cl1,
+  al_strict cl tr1 cl1 ->
+  forall cl' tr2 cl2, al_steps cl' tr2 cl2 -> ceq cl cl' -> length tr1 = length tr2 ->
+  Forall2 meq tr1 tr2 /\ ceq cl1 cl2.
+Proof.
+  induction 1 as [cl|cl tr cl1 A Bc rest cl2 Hrun IH HP Hstrict HP2]; intros cl' tr2 cl2' Hrun2 Hceq Hlen.
+  - destruct tr2; [|discriminate]. inversion Hrun2; subst.
+    + split; auto.
+    + destruct tr; discriminate.
+  - inversion Hrun2 as [|? tr' cl1' A' B' rest' ? Hrun2' HP' Hmin' HP2']; subst.
+    { rewrite app_length in Hlen. simpl in Hlen. lia. }
+    rewrite !app_length in Hlen. simpl in Hlen.
+    destruct (IH _ _ _ Hrun2' Hceq ltac:(lia)) as [Htr Hc1].
+    (* the pair chosen by the second run, seen in the first *)
+    destruct (ceq_extract2 _ _ _ _ _ Hc1 HP') as (C & D & rest0 & HPc & HC & HD & Hrest).
+    (* the pair chosen by the first run, seen in the second *)
+    destruct (ceq_extract2 _ _ _ _ _ (ceq_sym _ _ Hc1) HP) as (A0 & B0 & rest1 & HPa & HA0 & HB0 & _).
+    pose proof (Hmin' _ _ _ HPa) as Hle. rewrite (davg_perm _ _ _ _ HA0 HB0) in Hle.
+    rewrite <- (davg_perm _ _ _ _ HC HD) in Hle.
+    destruct (Hstrict _ _ _ HPc) as [Hlt|[[-> ->]|[-> ->]]].
+    { exfalso. eapply Qcle_not_lt; eauto. }
+    + (* same orientation *)
+      assert (Hr : Permutation rest rest0).
+      { eapply Permutation_cons_inv, Permutation_cons_inv. eapply perm_trans; [apply Permutation_sym; exact HP|exact HPc]. }
+      split.
+      * apply Forall2_app; auto. constructor; auto. simpl. split.
+        -- rewrite (davg_perm _ _ _ _ HC HD). reflexivity.
+        -- left. auto.
+      * eapply ceq_perm_l; [exact HP2|]. eapply ceq_perm_r; [|apply Permutation_sym; exact HP2'].
+        apply ceq_cons; [apply Permutation_app; auto|]. eapply ceq_perm_l; eauto.
+    + (* swapped *)
+      assert (Hr : Permutation rest rest0).
+      { eapply Permutation_cons_inv, Permutation_cons_inv.
+        eapply perm_trans; [apply Permutation_sym; exact HP|]. eapply perm_trans; [exact HPc|apply perm_swap]. }
+      split.
+      * apply Forall2_app; auto. constructor; auto. simpl. split.
+        -- rewrite (davg_sym A Bc). rewrite (davg_perm _ _ _ _ HC HD). reflexivity.
+        -- right. auto.
+      * eapply ceq_perm_l; [exact HP2|]. eapply ceq_perm_r; [|apply Permutation_sym; exact HP2'].
+        apply ceq_cons.
+        -- eapply perm_trans; [apply Permutation_app_comm|]. apply Permutation_app; auto.
+        -- eapply ceq_perm_l; eauto.
+Qed.
+
+
+(* ---- the last step ------------------------------------------------------------------------------------------------ *)
+Lemma final_ultra s mem ai bi t5 :
+  SInv O FinB n taxa s -> MInvA s mem ->
+  (forall u, u < n -> nth u (u_merged s) true = false -> u = ai \/ u = bi) ->
+  ai < n -> bi < n -> nth ai (u_merged s) true = false -> nth bi (u_merged s) true = false ->
+  FinalRel O s ai bi t5 ->
+  forall j, 1 <= j <= n -> updist O t5 j 0 (cell O (u_cells s) ai bi / (1 + 1))%Qc.
+Proof.
+  intros I M Honly Hai Hbi Mai Mbi FR j Hj. unfold FinalRel in FR. cbv zeta in FR.
+  set (t := u_t s) in *. set (a := nth ai (u_ids s) 0) in *. set (b := nth bi (u_ids s) 0) in *.
+  destruct FR as (Hwf5 & Hlen5 & Ha0 & Hb0 & Hab & Hfr & (r0 & r0' & Hr0 & Hr0' & Fe0 & Hch) &
+                  (na & Hna & Hpa & Hna5) & (nb & Hnb & Hpb & Hnb5)).
+  destruct (si_slots _ _ _ _ _ I _ _ Hr0) as (_ & R2 & _). destruct (R2 eq_refl) as [R3 _].
+  assert (Hroot : forall r, nth_error t 0 = Some r -> nparent r = None) by (intros r Hr; congruence).
+  assert (Hframe : forall j nd, nth_error t j = Some nd -> j <> 0 -> nparent nd <> Some 0 ->
+            exists nd', nth_error t5 j = Some nd' /\ nparent nd' = nparent nd /\ npedge nd' = npedge nd).
+  { intros k nd Hnd Hk0 Hpar.
+    assert (k <> a) by (intros ->; congruence). assert (k <> b) by (intros ->; congruence).
+    exists nd. rewrite Hfr; auto. }
+  replace j with (S (j - 1)) by lia.
+  destruct (ma_cover _ _ M (j - 1) ltac:(lia)) as (u & Hu & Hmu & Hin).
+  destruct (Honly u Hu Hmu) as [->| ->].
+  - pose proof (ma_ultra _ _ M ai (j - 1) Hai Mai Hin) as P. fold t a in P.
+    apply (updist_frame O t t5) in P; auto.
+    pose proof (updist_snoc t5 _ _ _ _ 0 _ P Hna5 Hpa eq_refl) as P2.
+    replace (cell O (u_cells s) ai bi / (1 + 1))%Qc with
+      (nth ai (u_heights s) (l0 O) +
+       lsub O (ldiv O (cell O (u_cells s) ai bi) (two O)) (nth ai (u_heights s) (l0 O)))%Qc; auto.
+    unfold two. cbn [ladd lsub ldiv l1 QcOps]. ring.
+  - pose proof (ma_ultra _ _ M bi (j - 1) Hbi Mbi Hin) as P. fold t b in P.
+    apply (updist_frame O t t5) in P; auto.
+    pose proof (updist_snoc t5 _ _ _ _ 0 _ P Hnb5 Hpb eq_refl) as P2.
+    replace (cell O (u_cells s) ai bi / (1 + 1))%Qc with
+      (nth bi (u_heights s) (l0 O) +
+       lsub O (ldiv O (cell O (u_cells s) ai bi) (two O)) (nth bi (u_heights s) (l0 O)))%Qc; auto.
+    unfold two. cbn [ladd lsub ldiv l1 QcOps]. ring.
+Qed.
+
+Lemma final_nonneg s hl ai bi t5 :
+  SInv O FinB n taxa s -> MInvB s hl ->
+  ai < n -> bi < n -> ai <> bi -> nth ai (u_merged s) true = false -> nth bi (u_merged s) true = false ->
+  FinalRel O s ai bi t5 ->
+  (hl <= cell O (u_cells s) ai bi / (1 + 1))%Qc /\
+  forall j nd e, nth_error t5 j = Some nd -> npedge nd = Some e -> (0 <= e)%Qc.
+Proof.
+  intros I M Hai Hbi Habi Mai Mbi FR. unfold FinalRel in FR. cbv zeta in FR.
+  set (t := u_t s) in *. set (a := nth ai (u_ids s) 0) in *. set (b := nth bi (u_ids s) 0) in *.
+  destruct FR as (Hwf5 & Hlen5 & Ha0 & Hb0 & Hab & Hfr & (r0 & r0' & Hr0 & Hr0' & Fe0 & Hch) &
+                  (na & Hna & Hpa & Hna5) & (nb & Hnb & Hpb & Hnb5)).
+  pose proof (mb_mono _ _ M ai bi Hai Hbi Habi Mai Mbi) as Hhl.
+  destruct (half_facts _ _ _ (mb_low _ _ M ai Hai Mai) Hhl) as (F1 & F2 & _).
+  destruct (half_facts _ _ _ (mb_low _ _ M bi Hbi Mbi) Hhl) as (_ & G2 & _).
+  split; auto.
+  intros j nd e Hnd He.
+  destruct (Nat.eq_dec j 0) as [->|Hj0].
+  { assert (nd = r0') by congruence. subst nd. destruct Fe0 as (_ & _ & _ & _ & Q5 & _).
+    apply (mb_nonneg _ _ M 0 r0); auto. congruence. }
+  destruct (Nat.eq_dec j a) as [->|Hja].
+  { rewrite Hna5 in Hnd. injection Hnd as <-. simpl in He. injection He as <-. exact F2. }
+  destruct (Nat.eq_dec j b) as [->|Hjb].
+  { rewrite Hnb5 in Hnd. injection Hnd as <-. simpl in He. injection He as <-. exact G2. }
+  rewrite Hfr in Hnd by auto. apply (mb_nonneg _ _ M j nd); auto.
+Qed.
+
+
+Lemma final_linkage s mem tr ai bi t5 :
+  SInv O FinB n taxa s -> MInvA s mem -> MInvT s mem tr -> u_k s = 2 ->
+  filter (unmb (u_merged s)) (seq 0 n) = [ai; bi] ->
+  (forall u, u < n -> nth u (u_merged s) true = false -> u = ai \/ u = bi) ->
+  ai < n -> bi < n -> ai <> bi -> nth ai (u_merged s) true = false -> nth bi (u_merged s) true = false ->
+  FinalRel O s ai bi t5 ->
+  let S := nth ai mem [] in
+  let T := nth bi mem [] in
+  al_steps singles (tr ++ [(S, T, (davg S T / (1 + 1))%Qc)]) [S ++ T] /\
+  length tr = n - 2 /\
+  (forall k A Bc h, nth_error tr k = Some (A, Bc, h) ->
+     forall i, In i (A ++ Bc) -> updist O t5 (Datatypes.S i) (n + 1 + k) h) /\
+  (forall i, i < n -> In i (S ++ T) /\ updist O t5 (Datatypes.S i) 0 (davg S T / (1 + 1))%Qc).
+Proof.
+  intros I M T Hk Hfil Honly Hai Hbi Hab Mai Mbi FR S0 T0.
+  pose proof (ma_avg _ _ M ai bi Hai Hbi Hab Mai Mbi) as Eab. fold S0 T0 in Eab.
+  pose proof (ma_avg _ _ M bi ai Hbi Hai ltac:(auto) Mbi Mai) as Eba. fold S0 T0 in Eba.
+  assert (Hact : active s mem = [S0; T0]) by (unfold active; rewrite Hfil; reflexivity).
+  splits.
+  - apply al_snoc with (cl1 := active s mem) (rest := []).
+    + apply (mt_run _ _ _ T).
+    + rewrite Hact. reflexivity.
+    + intros C D rest' HP. rewrite Hact in HP.
+      pose proof (Permutation_length HP) as HL. simpl in HL. destruct rest'; [|discriminate].
+      apply Permutation_length_2_inv in HP as [HP|HP]; injection HP as -> ->.
+      * apply Qcle_refl.
+      * rewrite <- Eab, <- Eba, cell_sym. apply Qcle_refl.
+    + reflexivity.
+  - pose proof (mt_len _ _ _ T). lia.
+  - intros k A Bc h Hk' i Hi.
+    pose proof (mt_tree _ _ _ T k A Bc h Hk' i Hi) as P.
+    unfold FinalRel in FR. cbv zeta in FR.
+    destruct FR as (_ & _ & Ha0 & Hb0 & _ & Hfr & (r0 & r0' & Hr0 & _ & _ & _) &
+                    (na & Hna & Hpa & _) & (nb & Hnb & Hpb & _)).
+    destruct (si_slots _ _ _ _ _ I _ _ Hr0) as (_ & R2 & _). destruct (R2 eq_refl) as [R3 _].
+    apply (updist_frame O (u_t s) t5) in P; auto; try lia.
+    + intros r Hr. congruence.
+    + intros j nd Hnd Hj0 Hpar.
+      assert (j <> nth ai (u_ids s) 0) by (intros ->; congruence).
+      assert (j <> nth bi (u_ids s) 0) by (intros ->; congruence).
+      exists nd. rewrite Hfr; auto.
+  - intros i Hi. split.
+    + destruct (ma_cover _ _ M i Hi) as (u & Hu & Hmu & Hin). apply in_or_app.
+      destruct (Honly u Hu Hmu) as [->| ->]; auto.
+    + rewrite <- Eab. apply (final_ultra s mem ai bi t5 I M Honly Hai Hbi Mai Mbi FR). lia.
+Qed.
+
+
+End Metric.
+
+(* ---- reachable loop states ------------------------------------------------------------------------------------ *)
+Section Reach.
+Context {L : Type}.
+Variable O : LenOps L.
+Variable Fin : L -> Prop.
+Hypothesis HSep : Separated O Fin.
+Notation dmat := (@dmat L).
+
+Inductive ureach (m : dmat) : @ustate L -> Prop :=
+| ur_init : forall t1, StarInv (mtaxa m) t1 (seq 1 (msize m)) -> ureach m (st_init O (msize m) (mcells m) t1)
+| ur_step : forall s s', ureach m s -> 2 < u_k s -> ustep O (msize m) s = Ok s' -> ureach m s'.
+
+Lemma ureach_SInv (m : dmat) s :
+  upgma_pre Fin m -> ureach m s -> SInv O Fin (msize m) (mtaxa m) s.
+Proof.
+  intros (H1 & H2 & H3 & H4) Hr. induction Hr as [t1 HS|s s' Hr IH Hk Hst].
+  - pose proof (SInv_init O Fin (mtaxa m) (mcells m) t1) as I0. cbv zeta in I0. rewrite H1 in I0. apply I0; auto.
+  - destruct (SInv_step O Fin HSep _ _ s IH Hk) as (s1 & Hst1 & I1 & _). congruence.
+Qed.
+
+(* the run of [upgma] goes through reachable states only, and ends in one with two clusters left *)
+Lemma upgma_run_reach (m : dmat) :
+  upgma_pre Fin m ->
+  exists s ai bi t5,
+    ureach m s /\ SInv O Fin (msize m) (mtaxa m) s /\ u_k s = 2 /\
+    filter (unmb (u_merged s)) (seq 0 (msize m)) = [ai; bi] /\
+    ai < msize m /\ bi < msize m /\ ai <> bi /\
+    nth ai (u_merged s) true = false /\ nth bi (u_merged s) true = false /\
+    (forall u, u < msize m -> nth u (u_merged s) true = false -> u = ai \/ u = bi) /\
+    FinalRel O s ai bi t5 /\ upgma O m = Ok t5.
+Proof.
+  intros (H1 & H2 & H3 & H4).
+  destruct (upgma_run O Fin HSep m (ureach m) H1 H2 H3 H4) as
+    (s & ai & bi & t5 & Is & Js & Hk & Hfil & Q1 & Q2 & Q3 & Q4 & Q5 & Honly & FR & Hrun).
+  - intros t1 HS. constructor; auto.
+  - intros s s' _ Hr Hk Hst. eapply ur_step; eauto.
+  - exists s, ai, bi, t5. splits; auto.
+Qed.
+
+End Reach.
+
+(* ================================================================================================== *)
+(* Part II, theorems (Qc; B = the marker written into retired cells, above every input distance)       *)
+(* ================================================================================================== *)
+Section MetricTheorems.
+Variable B : Qc.
+Notation O := (QcOps B).
+Notation dmat := (@dmat Qc).
+
+(* invariants hold in every reachable state *)
+Theorem upgma_avg (m : dmat) s :
+  upgma_pre (FinB B) m -> ureach O m s ->
+  exists mem, MInvA B (mcells m) (msize m) s mem.
+Proof.
+  intros Hpre Hr. induction Hr as [t1 HS|s s' Hr IH Hk Hst].
+  - eexists. apply MInvA_init with (taxa := mtaxa m). auto.
+  - destruct IH as (mem & M).
+    destruct (MInvA_step B (mcells m) (msize m) (mtaxa m) s s' mem) as (a & b & _ & _ & _ & _ & _ & M'); auto.
+    + apply ureach_SInv; auto. apply QcSep.
+    + eauto.
+Qed.
+
+Definition nonneg_cells (m : dmat) : Prop := Forall (fun x => 0 <= x)%Qc (mcells m).
+
+Theorem upgma_heights (m : dmat) s :
+  upgma_pre (FinB B) m -> nonneg_cells m -> ureach O m s ->
+  exists hl, MInvB B (msize m) s hl.
+Proof.
+  intros Hpre Hnn Hr. induction Hr as [t1 HS|s s' Hr IH Hk Hst].
+  - exists 0%Qc. destruct Hpre as (H1 & H2 & H3 & H4). apply MInvB_init with (taxa := mtaxa m); auto.
+  - destruct IH as (hl & M).
+    destruct (MInvB_step B (msize m) (mtaxa m) s s' hl) as (a & b & _ & _ & M'); auto.
+    + apply ureach_SInv; auto. apply QcSep.
+    + eauto.
+Qed.
+
+(* merge heights never decrease: the height of the next merge (half the minimal cell) is at least the bound
+   [hl] on all current cluster heights, and it becomes the new bound *)
+Theorem upgma_heights_mono (m : dmat) s s' hl :
+  upgma_pre (FinB B) m -> ureach O m s -> MInvB B (msize m) s hl -> 2 < u_k s ->
+  ustep O (msize m) s = Ok s' ->
+  exists a b, dm_min O (mkDmat (msize m) [] (u_cells s)) = Some (a, b, cell O (u_cells s) a b) /\
+    (hl <= cell O (u_cells s) a b / (1 + 1))%Qc /\ MInvB B (msize m) s' (cell O (u_cells s) a b / (1 + 1))%Qc.
+Proof.
+  intros Hpre Hr M Hk Hst. apply (MInvB_step B (msize m) (mtaxa m) s s' hl); auto.
+  apply ureach_SInv; auto. apply QcSep.
+Qed.
+
+(* all leaves are at the same distance from the root *)
+Theorem upgma_ultra (m : dmat) t :
+  upgma_pre (FinB B) m -> upgma O m = Ok t ->
+  exists th, forall j, 1 <= j <= msize m -> updist O t j 0 th.
+Proof.
+  intros Hpre Ht.
+  destruct (upgma_run_reach O (FinB B) (QcSep B) m Hpre)
+    as (s & ai & bi & t5 & Hr & Is & Hk & Hfil & Hai & Hbi & Hab & Mai & Mbi & Honly & FR & Hrun).
+  assert (t5 = t) by congruence. subst t5.
+  destruct (upgma_avg m s Hpre Hr) as (mem & M).
+  eexists. eapply final_ultra; eauto.
+Qed.
+
+(* non-negative input distances give non-negative branch lengths *)
+Theorem upgma_nonneg (m : dmat) t :
+  upgma_pre (FinB B) m -> nonneg_cells m -> upgma O m = Ok t ->
+  forall j nd e, nth_error t j = Some nd -> npedge nd = Some e -> (0 <= e)%Qc.
+Proof.
+  intros Hpre Hnn Ht.
+  destruct (upgma_run_reach O (FinB B) (QcSep B) m Hpre)
+    as (s & ai & bi & t5 & Hr & Is & Hk & Hfil & Hai & Hbi & Hab & Mai & Mbi & Honly & FR & Hrun).
+  assert (t5 = t) by congruence. subst t5.
+  destruct (upgma_heights m s Hpre Hnn Hr) as (hl & M).
+  destruct (final_nonneg B (msize m) (mtaxa m) s hl ai bi t Is M Hai Hbi Hab Mai Mbi FR) as [_ H]. exact H.
+Qed.
+
+(* the trace of merges is a run of average linkage, in every reachable state *)
+Theorem upgma_trace (m : dmat) s :
+  upgma_pre (FinB B) m -> ureach O m s ->
+  exists mem tr, MInvA B (mcells m) (msize m) s mem /\ MInvT B (mcells m) (msize m) s mem tr.
+Proof.
+  intros Hpre Hr. induction Hr as [t1 HS|s s' Hr IH Hk Hst].
+  - eexists. exists []. split.
+    + apply MInvA_init with (taxa := mtaxa m). auto.
+    + apply MInvT_init.
+  - destruct IH as (mem & tr & M & T).
+    apply (MInvT_step B (mcells m) (msize m) (mtaxa m) s s' mem tr); auto.
+    apply ureach_SInv; auto. apply QcSep.
+Qed.
+
+(* C15, last clause: the internal nodes of the result, in creation order n+1, n+2, ..., 2n-2 and finally the root,
+   are exactly the merges of a run of average linkage (computed from its definition on the input matrix):
+   node n+1+k joins the clusters A_k and B_k, all leaves of A_k ++ B_k are at distance davg A_k B_k / 2 below it,
+   and the root joins the last two clusters S and T at height davg S T / 2. *)
+Definition linkage_witness (m : dmat) (t : @arena Qc) (tr : mtrace) (S T : list nat) : Prop :=
+  let n := msize m in
+  al_steps B (mcells m) (singles n) (tr ++ [(S, T, (davg B (mcells m) S T / (1 + 1))%Qc)]) [S ++ T] /\
+  length tr = n - 2 /\
+  (forall k A Bc h, nth_error tr k = Some (A, Bc, h) ->
+     forall i, In i (A ++ Bc) -> updist O t (Datatypes.S i) (n + 1 + k) h) /\
+  (forall i, i < n -> In i (S ++ T) /\
+     updist O t (Datatypes.S i) 0 (davg B (mcells m) S T / (1 + 1))%Qc).
+
+Theorem upgma_linkage (m : dmat) t :
+  upgma_pre (FinB B) m -> upgma O m = Ok t -> exists tr S T, linkage_witness m t tr S T.
+Proof.
+  intros Hpre Ht.
+  destruct (upgma_run_reach O (FinB B) (QcSep B) m Hpre)
+    as (s & ai & bi & t5 & Hr & Is & Hk & Hfil & Hai & Hbi & Hab & Mai & Mbi & Honly & FR & Hrun).
+  assert (t5 = t) by congruence. subst t5.
+  destruct (upgma_trace m s Hpre Hr) as (mem & tr & M & T).
+  exists tr, (nth ai mem []), (nth bi mem []).
+  apply (final_linkage B (mcells m) (msize m) (mtaxa m) s mem tr ai bi t); auto.
+Qed.
+
+(* ... and when every minimum is attained by a single pair of clusters ([al_strict]: a reference run in which each
+   chosen pair is strictly closer than every other pair), that run is the only one: the merges recorded in the tree
+   have the same heights and the same clusters (as sets) as the reference run. *)
+Theorem upgma_linkage_unique (m : dmat) t tr S T tr_ref cl_ref :
+  2 <= msize m -> linkage_witness m t tr S T ->
+  al_strict B (mcells m) (singles (msize m)) tr_ref cl_ref -> length tr_ref = msize m - 1 ->
+  Forall2 meq tr_ref (tr ++ [(S, T, (davg B (mcells m) S T / (1 + 1))%Qc)]) /\ ceq cl_ref [S ++ T].
+Proof.
+  intros Hn (Hrun & Hlen & _) Hstrict Hl.
+  apply (al_unique B (mcells m) _ _ _ Hstrict _ _ _ Hrun (ceq_refl _)).
+  rewrite app_length. simpl. lia.
+Qed.
+
+End MetricTheorems.
+
+(* the hypothesis on the marker cannot be dropped: with a marker below the live distances the minimal cell is a
+   retired one at the second iteration and the unwrap of merge_children fires (cf. upgma_total) *)
+Example marker_must_dominate :
+  let q := fun z => Q2Qc (inject_Z z) in
+  let m := mkDmat 4 [[97%N]; [98%N]; [99%N]; [100%N]] [q 2%Z; q 6%Z; q 8%Z; q 9%Z; q 7%Z; q 5%Z] in
+  upgma (QcOps (q 1%Z)) m = Panic 34 /\ exists t, upgma (QcOps (q 100%Z)) m = Ok t.
+Proof. split; [vm_compute; reflexivity|eexists; vm_compute; reflexivity]. Qed.
+
+(* ---- audit ------------------------------------------------------------------------------------------------------ *)
+Print Assumptions upgma_ok.
+Print Assumptions upgma_no_panic.
+Print Assumptions upgma_shape.
+Print Assumptions upgma_lengths_present.
+Print Assumptions upgma_rooted_binary.
+Print Assumptions upgma_small.
+Print Assumptions upgma_total.
+Print Assumptions upgma_ultra.
+Print Assumptions upgma_avg.
+Print Assumptions upgma_heights_mono.
+Print Assumptions upgma_nonneg.
+Print Assumptions upgma_linkage.
+Print Assumptions upgma_linkage_unique.
